@@ -6,7 +6,7 @@ from fractions import Fraction
 import numpy as np
 
 import gen
-from common import PropertyCheck, Skip, load_autoarray, mask_json, mask_from_json, q
+from common import Cmp, PropertyCheck, Skip, load_autoarray, mask_json, mask_from_json, q
 
 # entry points: name -> kind ("coord": result + d expected; "extent": (x0,x1,y0,y1) shifts;
 # "inv": unchanged).  Every value is a (nested) list of floats.
@@ -29,10 +29,14 @@ class C12(PropertyCheck):
         "case inputs; non-trivial = d has a non-zero component and the mask has masked and unmasked pixels; "
         "history cases (group=history) = a script of >= 2 operations on reused library objects, every observation "
         "judged against freshly built objects, numpy closed forms, the translation relation and the model; large "
-        "cases (large=true, only when the anchored source gained an integer constant) = recipes judged by the relation alone"
+        "cases (large=true; when the anchored source gained an integer constant, and one frame of more than 2^16 pixels "
+        "in every run) = recipes judged by the relation alone; round-5 cases (r5=true): the same entries with the world "
+        "at another decade (unit = 2^k, compared in units of the decade), near twins, far origins, inputs in other "
+        "containers / layouts / constructors (variant), crossed options (opts / ds_opts / hb_opts), ownership "
+        "histories (scribble / rebuild operations) and configuration histories (conf operations)"
     )
     # loop ties (DESIGN §12): regenerated from the source on every run, tie theorems proved for all sizes
-    loop_tie_modules = ["LoopsEntry"]
+    loop_tie_modules = ["LoopsEntry", "LoopsRadial"]
     modelled_functions = [
         "autoarray/geometry/geometry_util.py:central_pixel_coordinates_2d_from",
         "autoarray/geometry/geometry_util.py:central_scaled_coordinate_2d_from",
@@ -71,6 +75,11 @@ class C12(PropertyCheck):
         "translation relation only, not compared with the Lean model",
         "scipy.interpolate.griddata / Qhull inside image_mesh.Hilbert is not modelled (only the placement of its grids)",
         "float rounding of translated coordinates (inputs are dyadic so translations are exact; tolerance 1e-9)",
+        "decades stream: lengths are compared in units of the case's power-of-two decade with the band "
+        "max(1e-9 unit, 2^-46 |value|); continuous pixel coordinates of points 1e5..1e11 pixels from zero within a few "
+        "ulps of |origin| / pixel scale (the code computes them as -p/s + (centre + o/s))",
+        "dataset records of the round-5 streams are compared with the model's pixel-centre grid of the returned mask at "
+        "the world origin (every dataset operation keeps the origin: theorem dataset_records_commute)",
     ]
 
     # ------------------------------------------------------------------ generation
@@ -154,6 +163,8 @@ class C12(PropertyCheck):
         # history stream (DESIGN §13): reuse histories on real shared objects; after the ordinary streams, so their
         # PRNG consumption (and thus the cases of earlier rounds) is unchanged
         yield from self._histories(tier, rng)
+        # round 5 / 6 streams (DESIGN §14), after everything else for the same reason
+        yield from self._r5_streams(tier, rng)
 
     @staticmethod
     def _overlay_shape_without_ties(rng, m):
@@ -171,15 +182,108 @@ class C12(PropertyCheck):
         return out
 
     # ------------------------------------------------------------------ implementation
+    _side = "o"  # which of the two origins run_impl is evaluating ("o" / "od"): one-sided layout variants
+
+    def _variant(self, case):
+        """container / layout variant of the inputs (round-5 class C), applied at the origin(s) named by
+        case["variant_at"] ("o", "od" or "both"); {} = canonical inputs"""
+        v = case.get("variant")
+        if not v or case.get("variant_at", "both") not in ("both", self._side):
+            return {}
+        return v
+
     def _mask(self, aa, case, origin):
         arr = case["_mask_np"] if case.get("_mask_np") is not None else mask_from_json(case["mask"])
-        return aa.Mask2D(mask=arr,
-                         pixel_scales=(F(case["scales"][0]), F(case["scales"][1])), origin=origin)
+        scales = (F(case["scales"][0]), F(case["scales"][1]))
+        var = self._variant(case)
+        if not var:
+            return aa.Mask2D(mask=arr, pixel_scales=scales, origin=origin)
+        return self._mask_variant(aa, arr, scales, origin, var)
+
+    @staticmethod
+    def _mask_variant(aa, arr, scales, origin, var):
+        """an equal-valued Mask2D built from another container / memory layout / dtype of the same mask, origin and
+        pixel scales"""
+        arr = np.array(arr, dtype=bool)
+        h, w = arr.shape
+        kw = {}
+        mk = var.get("mask", "c")
+        if mk == "fortran":
+            a = np.asfortranarray(arr)
+        elif mk == "tview":  # transposed view of the transposed copy: Fortran strides, not owning its data
+            a = np.ascontiguousarray(arr.T).T
+        elif mk == "strided":  # every second element of a larger buffer
+            big = np.ones((2 * h, 2 * w + 1), dtype=bool)
+            big[::2, ::2][:, :w] = arr
+            a = big[::2, ::2][:, :w]
+        elif mk == "reversed":  # negative strides
+            a = arr[::-1, ::-1].copy()[::-1, ::-1]
+        elif mk == "readonly":
+            a = arr.copy()
+            a.flags.writeable = False
+        elif mk == "fortran_readonly":
+            a = np.asfortranarray(arr)
+            a.flags.writeable = False
+        elif mk == "list":
+            a = arr.tolist()
+        elif mk == "intlist":
+            a = arr.astype(int).tolist()
+        elif mk in ("int", "uint8", "float", "int8"):
+            a = arr.astype({"int": int, "uint8": np.uint8, "float": float, "int8": np.int8}[mk])
+        elif mk == "invert":
+            a = ~arr
+            kw["invert"] = True
+        elif mk == "from_mask":
+            # the user's way of moving / re-gridding a mask: a Mask2D built from an existing Mask2D that has ANOTHER
+            # origin (and possibly other pixel scales); the explicit arguments must win, also when they are (0.0, 0.0)
+            so = tuple(float(Fraction(x)) for x in var.get("src_origin", ["3", "-5/2"]))
+            ss = tuple(float(Fraction(x)) for x in var.get("src_scales", [q(Fraction(scales[0])), q(Fraction(scales[1]))]))
+            a = aa.Mask2D(mask=arr.copy(), pixel_scales=ss, origin=so)
+        else:
+            a = arr.copy()
+        ok_ = var.get("origin", "tuple")
+        o = (float(origin[0]), float(origin[1]))
+        if ok_ == "list":
+            o = [o[0], o[1]]
+        elif ok_ == "nparray":
+            o = np.array(o)
+        elif ok_ == "npfloat":
+            o = (np.float64(o[0]), np.float64(o[1]))
+        elif ok_ == "int" and o[0] == int(o[0]) and o[1] == int(o[1]):
+            o = (int(o[0]), int(o[1]))
+        sk = var.get("scales", "tuple")
+        s = (float(scales[0]), float(scales[1]))
+        if sk == "list":
+            s = [s[0], s[1]]
+        elif sk == "nparray":
+            s = np.array(s)
+        elif sk == "npfloat":
+            s = (np.float64(s[0]), np.float64(s[1]))
+        elif sk == "scalar" and s[0] == s[1]:
+            s = float(s[0])
+        elif sk == "int" and s[0] == int(s[0]) and s[1] == int(s[1]):
+            s = (int(s[0]), int(s[1]))
+        return aa.Mask2D(mask=a, pixel_scales=s, origin=o, **kw)
+
+    @staticmethod
+    def _unit(case):
+        """the decade of a case (round-5 classes A / E): every length of the world is a multiple of this power of two"""
+        return F(case.get("unit", "1"))
+
+    def _centre(self, case, origin):
+        """the radial-projection centre: origin + (1/4, -1/2) units unless the case says otherwise"""
+        u = self._unit(case)
+        cr = case.get("centre_rel")
+        if cr is None:
+            return (origin[0] + 0.25 * u, origin[1] - 0.5 * u)
+        return (origin[0] + F(cr[0]), origin[1] + F(cr[1]))
 
     def _entries_geometry(self, aa, case, origin, shift):
         m = self._mask(aa, case, origin)
         k = tuple(case["kernel"])
         sub = case["sub"]
+        var = self._variant(case)
+        opts = case.get("opts") or {}
         out = {}
 
         def grid(g):
@@ -191,7 +295,21 @@ class C12(PropertyCheck):
             except Exception as e:
                 out[name] = {"kind": kind, "value": None, "err": type(e).__name__}
 
-        g = aa.Grid2D.from_mask(mask=m)
+        if opts.get("from_mask_os"):  # rarely combined option: the grid carries an over-sampling configuration
+            g = aa.Grid2D.from_mask(mask=m, over_sampling=aa.OverSamplingUniform(sub_size=int(opts["from_mask_os"])))
+        else:
+            g = aa.Grid2D.from_mask(mask=m)
+
+        def sub_arg(relocator=False):
+            # the sub size as the int the API documents, or as an equal-valued Array2D of sizes: slim integers, or
+            # (OverSamplerUniform only, which casts to int; BorderRelocator needs the integer dtype a slim input keeps)
+            # natively shaped and Fortran-ordered
+            sv = var.get("sub")
+            if sv == "array2d" or (sv == "array2d_native" and relocator):
+                return aa.Array2D(values=np.full(m.pixels_in_mask, int(sub)), mask=m)
+            if sv == "array2d_native":
+                return aa.Array2D(values=np.asfortranarray(np.full(m.shape_native, int(sub))), mask=m)
+            return sub
         put("from_mask", "coord", lambda: grid(g))
         put("all_false", "coord", lambda: grid(m.derive_grid.all_false))
         put("unmasked", "coord", lambda: grid(m.derive_grid.unmasked))
@@ -199,9 +317,11 @@ class C12(PropertyCheck):
         put("border", "coord", lambda: grid(m.derive_grid.border))
         put("blurring", "coord", lambda: grid(aa.Grid2D.blurring_grid_from(mask=m, kernel_shape_native=k)))
         put("padded", "coord", lambda: grid(g.padded_grid_from(kernel_shape_native=k)))
-        put("over_sampled", "coord", lambda: grid(aa.OverSamplerUniform(mask=m, sub_size=sub).over_sampled_grid))
-        put("border_sub_grid", "coord", lambda: grid(aa.BorderRelocator(mask=m, sub_size=sub).sub_grid))
-        put("sub_border_grid", "coord", lambda: grid(aa.BorderRelocator(mask=m, sub_size=sub).sub_border_grid))
+        put("over_sampled", "coord", lambda: grid(aa.OverSamplerUniform(mask=m, sub_size=sub_arg()).over_sampled_grid))
+        put("border_sub_grid", "coord", lambda: grid(aa.BorderRelocator(mask=m, sub_size=sub_arg(True)).sub_grid))
+        put("sub_border_grid", "coord", lambda: grid(aa.BorderRelocator(mask=m, sub_size=sub_arg(True)).sub_border_grid))
+        if opts.get("from_mask_os"):
+            put("over_sampled_via_grid", "coord", lambda: grid(g.over_sampler.over_sampled_grid))
         if case.get("sub_runs"):
             # per-pixel sub-size map (run-length coded, odd and even sizes mixed): OverSamplerUniform / BorderRelocator
             # take an Array2D of sizes
@@ -222,21 +342,51 @@ class C12(PropertyCheck):
         put("zoom_mask_unmasked", "coordrec", zoom)
 
         def zoomed():
-            a = aa.Array2D(values=np.arange(1.0, m.shape_native[0] * m.shape_native[1] + 1).reshape(m.shape_native), mask=m)
-            z = a.zoomed_around_mask(buffer=1)
+            vals = np.arange(1.0, m.shape_native[0] * m.shape_native[1] + 1).reshape(m.shape_native)
+            akw = {}
+            vv = var.get("values")
+            if vv == "fortran":
+                vals = np.asfortranarray(vals)
+            elif vv == "list":
+                vals = vals.tolist()
+            elif vv == "int":
+                vals = vals.astype(int)
+            elif vv == "f32":
+                vals = vals.astype(np.float32)
+            elif vv == "slim":
+                vals = vals[~np.asarray(m.array, dtype=bool)]
+            elif vv == "readonly":
+                vals.flags.writeable = False
+            elif vv == "store_native":
+                akw["store_native"] = True
+            a = aa.Array2D(values=vals, mask=m, **akw)
+            z = a.zoomed_around_mask(buffer=int(opts.get("buffer", 1)))
             return {"origin": list(map(float, z.mask.origin)), "shape": list(z.shape_native),
                     "grid": grid(aa.Grid2D.from_mask(mask=z.mask)),
                     "values": np.asarray(z.native.array, dtype=float).ravel().tolist()}
         put("zoomed_around_mask", "coordrec", zoomed)
+        rkw = {"pad_value": opts["pad_value"]} if "pad_value" in opts else {}
 
         def resized():
-            r = m.resized_from(new_shape=tuple(case["resize_to"]))
+            r = m.resized_from(new_shape=tuple(case["resize_to"]), **rkw)
             return {"origin": list(map(float, r.origin)), "shape": list(r.shape_native),
                     "grid": grid(aa.Grid2D.from_mask(mask=r)) if r.pixels_in_mask > 0 else []}
         put("resized", "coordrec", resized)
-        centre = (origin[0] + 0.25, origin[1] - 0.5)
+        centre = self._centre(case, origin)
+        pkw = {}
+        if "shape_slim" in opts:
+            pkw["shape_slim"] = opts["shape_slim"]
+        if "rpc" in opts:
+            pkw["remove_projected_centre"] = opts["rpc"]
+        if var.get("points") == "list":
+            centre = [centre[0], centre[1]]
+        elif var.get("points") == "nparray":
+            centre = np.array(centre)
         put("radial_projected", "coord", lambda: grid(g.grid_2d_radial_projected_from(
-            centre=centre, angle=float(case["angle"]))))
+            centre=centre, angle=float(case["angle"]), **pkw)))
+        if "rpc" in opts:  # control for the oracle: the same call keeping the centre
+            put("radial_full", "coord", lambda: grid(g.grid_2d_radial_projected_from(
+                centre=centre, angle=float(case["angle"]), **{**pkw, "remove_projected_centre": False})))
         if case.get("overlay"):
             ov = aa.image_mesh.Overlay(shape=tuple(case["overlay"]))
             put("overlay_mesh", "coord", lambda: grid(ov.image_plane_mesh_grid_from(mask=m, adapt_data=None)))
@@ -245,10 +395,23 @@ class C12(PropertyCheck):
             pts = [tuple(p) for p in (np.asarray(case["_points_np"], dtype=float) + np.asarray(shift, dtype=float)).tolist()]
         else:
             pts = [(F(a) + shift[0], F(b) + shift[1]) for a, b in case["points"]]
+        pv = var.get("points")
+        pconv = (lambda p: [p[0], p[1]]) if pv == "list" else (lambda p: np.array(p)) if pv == "nparray" else \
+            (lambda p: (np.float64(p[0]), np.float64(p[1]))) if pv == "npfloat" else (lambda p: p)
         put("pixel_coordinates", "inv", lambda: [list(map(int, m.geometry.pixel_coordinates_2d_from(
-            scaled_coordinates_2d=p))) for p in pts[:2000]])
-        gi = aa.Grid2D.no_mask(values=np.array(pts, dtype=float).reshape((2, 2, 2) if len(pts) == 4 else (-1, 1, 2)),
-                               pixel_scales=1.0)
+            scaled_coordinates_2d=pconv(p)))) for p in pts[:2000]])
+        gv = np.array(pts, dtype=float).reshape((2, 2, 2) if len(pts) == 4 else (-1, 1, 2))
+        gk = var.get("grid")
+        if gk == "fortran":
+            gi = aa.Grid2D.no_mask(values=np.asfortranarray(gv), pixel_scales=1.0)
+        elif gk == "list":
+            gi = aa.Grid2D.no_mask(values=gv.tolist(), pixel_scales=1.0)
+        elif gk == "slim":
+            gi = aa.Grid2D.no_mask(values=gv.reshape(-1, 2), shape_native=gv.shape[:2], pixel_scales=1.0)
+        elif gk == "other_geometry":  # the query grid's own (irrelevant) geometry is off-origin and anisotropic
+            gi = aa.Grid2D.no_mask(values=gv, pixel_scales=(3.0, 0.5), origin=(7.0, -11.0))
+        else:
+            gi = aa.Grid2D.no_mask(values=gv, pixel_scales=1.0)
         put("grid_pixel_indexes", "inv", lambda: [int(v) for v in np.asarray(
             m.geometry.grid_pixel_indexes_2d_from(grid_scaled_2d=gi))])
         put("grid_pixel_centres", "inv", lambda: np.asarray(
@@ -259,6 +422,10 @@ class C12(PropertyCheck):
         if case.get("_mesh_points_np") is not None:
             gm = aa.Grid2DIrregular(values=[tuple(p) for p in (np.asarray(case["_mesh_points_np"], dtype=float)
                                                                + np.asarray(shift, dtype=float)).tolist()])
+        elif var.get("mesh_points") == "nparray":
+            gm = aa.Grid2DIrregular(values=np.array([(F(a) + shift[0], F(b) + shift[1]) for a, b in case["mesh_points"]]))
+        elif var.get("mesh_points") == "lists":
+            gm = aa.Grid2DIrregular(values=[[F(a) + shift[0], F(b) + shift[1]] for a, b in case["mesh_points"]])
         else:
             gm = aa.Grid2DIrregular(values=[(F(a) + shift[0], F(b) + shift[1]) for a, b in case["mesh_points"]])
         put("mesh_pixels_per_image_pixels", "inv", lambda: np.asarray(
@@ -272,13 +439,57 @@ class C12(PropertyCheck):
         put("mapper_grids_mesh_pixels_per_image_pixels", "inv", mg_counts)
         put("edge_slim", "inv", lambda: [int(v) for v in m.derive_indexes.edge_slim])
         put("border_slim", "inv", lambda: [int(v) for v in m.derive_indexes.border_slim])
-        put("sub_border_slim", "inv", lambda: [int(v) for v in aa.BorderRelocator(mask=m, sub_size=sub).sub_border_slim])
+        put("sub_border_slim", "inv", lambda: [int(v) for v in aa.BorderRelocator(mask=m, sub_size=sub_arg(True)).sub_border_slim])
         put("pixels_in_mask", "inv", lambda: int(m.pixels_in_mask))
         put("blurring_bits", "inv", lambda: "".join("1" if b else "0" for b in np.asarray(
             m.derive_mask.blurring_from(kernel_shape_native=k)).ravel()))
         put("resized_bits", "inv", lambda: "".join("1" if b else "0" for b in np.asarray(
-            m.resized_from(new_shape=tuple(case["resize_to"]))).ravel()))
+            m.resized_from(new_shape=tuple(case["resize_to"]), **rkw)).ravel()))
+        if case.get("r5"):
+            put("mask_bits", "inv", lambda: "".join("1" if b else "0" for b in np.asarray(m.array, dtype=bool).ravel()))
+        if case.get("r5") and case.get("records", True):
+
+            # derived masks re-pass the pixel scales and the origin of the parent (anchors: mask/derive/mask_2d.py,
+            # Mask2D.rescaled_from): their own geometry is a coordinate-valued result too
+            def mrec(z):
+                return {"origin": list(map(float, z.origin)), "shape": list(z.shape_native),
+                        "bits": "".join("1" if b else "0" for b in np.asarray(z.array, dtype=bool).ravel()),
+                        "extent": list(map(float, z.geometry.extent)),
+                        "grid": grid(aa.Grid2D.from_mask(mask=z)) if z.pixels_in_mask > 0 else []}
+            put("dm_all_false", "coordrec", lambda: mrec(m.derive_mask.all_false))
+            put("dm_edge", "coordrec", lambda: mrec(m.derive_mask.edge))
+            put("dm_edge_buffed", "coordrec", lambda: mrec(m.derive_mask.edge_buffed))
+            put("dm_border", "coordrec", lambda: mrec(m.derive_mask.border))
+            put("dm_blurring", "coordrec", lambda: mrec(m.derive_mask.blurring_from(kernel_shape_native=k)))
+            put("dm_rescaled", "coordrec", lambda: mrec(m.rescaled_from(rescale_factor=2.0)))
+            # Grid2D.subtracted_from (anchor uniform_2d.py:667): the grid AND its mask move by -offset; the offset is
+            # the same vector at both origins, in a third of the cases exactly the origin of one side (the moved mask
+            # then sits at exactly (0.0, 0.0))
+            off = self._offset(case)
+            if off is not None:
+                def sub_rec():
+                    gs = g.subtracted_from(offset=off)
+                    r = mrec(gs.mask)
+                    r["values_grid"] = grid(gs)
+                    r["offset_q"] = [q(off[0]), q(off[1])]
+                    return r
+                put("subtracted", "coordrec", sub_rec)
+                if opts.get("from_mask_os"):
+                    put("subtracted_over_sampled", "coord",
+                        lambda: grid(g.subtracted_from(offset=off).over_sampler.over_sampled_grid))
         return out
+
+    @staticmethod
+    def _offset(case):
+        mode = case.get("offset_mode")
+        if mode is None:
+            return None
+        o = (F(case["origin"][0]), F(case["origin"][1]))
+        if mode == "origin":
+            return o
+        if mode == "origin_d":
+            return (o[0] + F(case["shift"][0]), o[1] + F(case["shift"][1]))
+        return (F(case["offset"][0]), F(case["offset"][1]))
 
     def _entries_dataset(self, aa, case, origin, shift):
         m = self._mask(aa, case, origin)
@@ -298,18 +509,50 @@ class C12(PropertyCheck):
             except Exception as e:
                 out[name] = {"kind": kind, "value": None, "err": type(e).__name__}
 
+        var = self._variant(case)
+        r5 = bool(case.get("r5"))
+
+        def conv(v):
+            # equal-valued containers / layouts of the caller's data arrays (round-5 class C)
+            dv = var.get("data")
+            if dv == "fortran":
+                return np.asfortranarray(v)
+            if dv == "list":
+                return v.tolist()
+            if dv == "f32":  # multiples of 1/8 below 16: exact in float32
+                return v.astype(np.float32)
+            if dv == "readonly":
+                v = v.copy()
+                v.flags.writeable = False
+                return v
+            if dv == "tview":
+                return np.ascontiguousarray(v.T).T
+            return v
+
         def ds():
-            data = aa.Array2D.no_mask(values=data_v, pixel_scales=ps, origin=origin)
-            noise = aa.Array2D.no_mask(values=noise_v, pixel_scales=ps, origin=origin)
-            psf = aa.Kernel2D.no_mask(values=np.ones((3, 3)) / 9.0, pixel_scales=ps)
+            if var.get("data") == "slim":
+                data = aa.Array2D.no_mask(values=data_v.ravel(), shape_native=(h, w), pixel_scales=ps, origin=origin)
+                noise = aa.Array2D.no_mask(values=noise_v.ravel().tolist(), shape_native=(h, w), pixel_scales=ps,
+                                           origin=origin)
+            else:
+                data = aa.Array2D.no_mask(values=conv(data_v), pixel_scales=ps, origin=origin)
+                noise = aa.Array2D.no_mask(values=conv(noise_v), pixel_scales=ps, origin=origin)
+            psf = aa.Kernel2D.no_mask(values=conv(np.ones((3, 3)) / 9.0) if var.get("data") in ("fortran", "list", "tview")
+                                      else np.ones((3, 3)) / 9.0, pixel_scales=ps)
             return aa.Imaging(data=data, noise_map=noise, psf=psf)
 
         def rec(d):
-            return {"data_origin": list(map(float, d.data.mask.origin)),
-                    "noise_origin": list(map(float, d.noise_map.mask.origin)),
-                    "shape": list(d.data.shape_native),
-                    "grid": grid(d.grids.uniform),
-                    "data": np.asarray(d.data.native.array, dtype=float).ravel().tolist()}
+            r = {"data_origin": list(map(float, d.data.mask.origin)),
+                 "noise_origin": list(map(float, d.noise_map.mask.origin)),
+                 "shape": list(d.data.shape_native),
+                 "grid": grid(d.grids.uniform),
+                 "data": np.asarray(d.data.native.array, dtype=float).ravel().tolist()}
+            if r5:  # for the model: the mask the returned data sits on, and the noise map's own grid
+                r["bits"] = "".join("1" if b else "0" for b in np.asarray(d.data.mask.array, dtype=bool).ravel())
+                r["noise_grid"] = grid(aa.Grid2D.from_mask(mask=d.noise_map.mask))
+                r["noise_shape"] = list(d.noise_map.shape_native)
+                r["noise_bits"] = "".join("1" if b else "0" for b in np.asarray(d.noise_map.mask.array, dtype=bool).ravel())
+            return r
         put("apply_mask", "dsrec", lambda: rec(ds().apply_mask(mask=m)))
         put("apply_noise_scaling", "dsrec", lambda: rec(ds().apply_noise_scaling(mask=m)))
         put("apply_over_sampling", "dsrec", lambda: rec(ds().apply_mask(mask=m).apply_over_sampling(
@@ -329,9 +572,12 @@ class C12(PropertyCheck):
             d = ds()
             r = preprocess.noise_map_with_signal_to_noise_limit_from(
                 data=d.data, noise_map=d.noise_map, signal_to_noise_limit=2.0)
-            return {"origin": list(map(float, r.mask.origin)), "shape": list(r.shape_native),
-                    "grid": grid(aa.Grid2D.from_mask(mask=r.mask)),
-                    "values": np.asarray(r.native.array, dtype=float).ravel().tolist()}
+            o_ = {"origin": list(map(float, r.mask.origin)), "shape": list(r.shape_native),
+                  "grid": grid(aa.Grid2D.from_mask(mask=r.mask)),
+                  "values": np.asarray(r.native.array, dtype=float).ravel().tolist()}
+            if r5:
+                o_["bits"] = "".join("1" if b else "0" for b in np.asarray(r.mask.array, dtype=bool).ravel())
+            return o_
         put("s2n_limit_noise_map", "coordrec", s2n)
         return out
 
@@ -342,10 +588,13 @@ class C12(PropertyCheck):
         out = {}
         os_ = aa.OverSamplerUniform(mask=m, sub_size=sub)
         base = np.asarray(os_.over_sampled_grid.array, dtype=float)
-        # a smooth distortion of the *relative* coordinates, then translated with the origin
-        rel = base - np.array(origin)
+        # a smooth distortion of the *relative* coordinates (in units of the case's decade, 1 for the ordinary
+        # streams: division / multiplication by a power of two is exact), then translated with the origin
+        u = self._unit(case)
+        rel = (base - np.array(origin)) / u
         a, b = np.round(rs.uniform(-0.2, 0.2, 2) * 16) / 16
         src_rel = np.stack([rel[:, 0] * (1 + a) + 0.125 * rel[:, 1] ** 2, rel[:, 1] * (1 + b) - 0.25 * rel[:, 0] * rel[:, 1]], axis=1)
+        src_rel = src_rel * u
         src = aa.Grid2DIrregular(values=src_rel + np.array(origin))
 
         def put(name, kind, fn):
@@ -366,6 +615,8 @@ class C12(PropertyCheck):
                     "mapping_matrix": np.asarray(mp.mapping_matrix, dtype=float).tolist(),
                     "mesh_origin_rel": [float(mesh.origin[0] - origin[0]), float(mesh.origin[1] - origin[1])]}
         put("mapper_rectangular", "inv", rect)
+        if case.get("no_delaunay"):
+            return out
 
         def dela():
             nv = int(case.get("nv", 7))
@@ -373,7 +624,7 @@ class C12(PropertyCheck):
             # be cocircular on that lattice (Qhull tie-breaking is origin dependent, cf. D10h): finer lattice there
             res = 64 if nv <= 50 else 2 ** 30
             vr = np.round(rs.uniform(-1, 1, size=(nv, 2)) * res) / res
-            ext = np.abs(src_rel).max(axis=0) * 1.2 + 0.1
+            ext = np.abs(src_rel).max(axis=0) * 1.2 + 0.1 * u
             verts = vr * ext + np.array(origin)
             mesh = aa.Mesh2DDelaunay(values=verts)
             mg = aa.MapperGrids(mask=m, source_plane_data_grid=src, source_plane_mesh_grid=mesh)
@@ -393,14 +644,16 @@ class C12(PropertyCheck):
             adapt = aa.Array2D(values=img, mask=m)
         else:
             adapt = aa.Array2D.no_mask(values=img, pixel_scales=s, origin=origin)
-        hb = aa.image_mesh.Hilbert(pixels=case["pixels"], weight_floor=0.1, weight_power=1.0)
+        ho = case.get("hb_opts") or {}  # crossed options (round-5 class F), incl. "set but falsy" values
+        hb = aa.image_mesh.Hilbert(pixels=case["pixels"], weight_floor=ho.get("weight_floor", 0.1),
+                                   weight_power=ho.get("weight_power", 1.0))
         out = {}
         settings = None
         if case.get("settings_checks"):
             # the optional checks count mesh points per image pixel: a count-valued intermediate
-            settings = aa.SettingsInversion(image_mesh_min_mesh_pixels_per_pixel=0,
-                                            image_mesh_min_mesh_number=1,
-                                            image_mesh_adapt_background_percent_threshold=None)
+            settings = aa.SettingsInversion(image_mesh_min_mesh_pixels_per_pixel=ho.get("min_per_pixel", 0),
+                                            image_mesh_min_mesh_number=ho.get("min_number", 1),
+                                            image_mesh_adapt_background_percent_threshold=ho.get("background", None))
         try:
             g = hb.image_plane_mesh_grid_from(mask=m, adapt_data=adapt, settings=settings)
             out["hilbert_mesh"] = {"kind": "coord", "value": np.asarray(g.array, dtype=float).reshape(-1, 2).tolist()}
@@ -416,12 +669,20 @@ class C12(PropertyCheck):
         d = (F(case["shift"][0]), F(case["shift"][1]))
         od = (o[0] + d[0], o[1] + d[1])
         fn = {"geometry": self._entries_geometry, "dataset": self._entries_dataset,
-              "mapper": self._entries_mapper, "hilbert": self._entries_hilbert}[case["group"]]
+              "mapper": self._entries_mapper, "hilbert": self._entries_hilbert,
+              "dsopts": self._entries_dsopts}[case["group"]]
         if case.get("large"):
             full_case = self._expand_large(case)
             full = {"at_o": fn(aa, full_case, o, (0.0, 0.0)), "at_od": fn(aa, full_case, od, d)}
             return self._summarise_large(full_case, full, np.array(d))
-        return {"at_o": fn(aa, case, o, (0.0, 0.0)), "at_od": fn(aa, case, od, d)}
+        try:
+            self._side = "o"
+            at_o = fn(aa, case, o, (0.0, 0.0))
+            self._side = "od"
+            at_od = fn(aa, case, od, d)
+        finally:
+            self._side = "o"
+        return {"at_o": at_o, "at_od": at_od}
 
     # ------------------------------------------------------------------ large stream (DESIGN §13, size-gated paths)
     # A large case is a compact RECIPE (shape, mask family, counts, seed): the mask / point arrays are expanded
@@ -788,6 +1049,9 @@ class C12(PropertyCheck):
             self.share = set(case.get("share", [])) if persist else set()
             self.cfgs, self.arrays = {}, {}
             self.objs = [dict() for _ in worlds]
+            # ownership histories (round-5 class B): every object the API handed out is kept, so that it can be
+            # scribbled over in place afterwards
+            self.raw = [] if (persist and case.get("keep_raw")) else None
             h, w = worlds[0]["arr"].shape
             rs = np.random.RandomState(int(case["seed"]) % (2 ** 31))
             self.data_v = np.round(rs.uniform(1, 9, size=(h, w)) * 8) / 8
@@ -870,6 +1134,91 @@ class C12(PropertyCheck):
                 self.objs[wi][kind] = o
             return o
 
+        def keep(self, x):
+            if self.raw is not None and len(self.raw) < 4000:
+                self.raw.append(x)
+            return x
+
+        def reset(self):
+            """forget every object of the session: the next use builds the same world again from fresh, equal inputs"""
+            self.cfgs, self.arrays = {}, {}
+            self.objs = [dict() for _ in self.worlds]
+            if self.raw is not None:
+                self.raw = []
+
+        def scribble(self):
+            """what a careless caller does: overwrite, in place, every array the API returned or accepted so far
+            (floats -> nan, ints += 1, bools inverted) — the returned structures, the arrays behind them, the
+            objects of the session and the caller's own input arrays — and run a user function that edits the grid it
+            is given in place.  Returns the number of arrays overwritten."""
+            seen, count = set(), [0]
+
+            def arr(a):
+                try:
+                    if not a.flags.writeable or a.size == 0:
+                        return
+                    if a.dtype.kind in "fc":
+                        a[...] = np.nan
+                    elif a.dtype.kind == "b":
+                        a[...] = ~a
+                    elif a.dtype.kind in "iu":
+                        a[...] = a + 1
+                    else:
+                        return
+                    count[0] += 1
+                except Exception:
+                    pass
+
+            def visit(x, depth):
+                if x is None or id(x) in seen or depth > 4:
+                    return
+                seen.add(id(x))
+                if isinstance(x, np.ndarray):
+                    if isinstance(x.base, np.ndarray):
+                        visit(x.base, depth)
+                    arr(x)
+                    return
+                if isinstance(x, (list, tuple)):
+                    for y in list(x)[:64]:
+                        visit(y, depth + 1)
+                    return
+                if isinstance(x, dict):
+                    for y in list(x.values())[:64]:
+                        visit(y, depth + 1)
+                    return
+                if not (type(x).__module__ or "").startswith("autoarray"):
+                    return
+                # a library object: its own buffer and what its public attributes / cached public properties hold
+                # (private attributes are not the caller's to edit)
+                for k_, v in list(getattr(x, "__dict__", {}).items()):
+                    if k_ == "_array" or not k_.startswith("_"):
+                        visit(v, depth + 1)
+
+            def func(grid_, *a, **k):
+                try:
+                    g_ = grid_._array if hasattr(grid_, "_array") else grid_
+                    g_[...] = np.nan
+                except Exception:
+                    pass
+                return np.zeros(np.asarray(grid_).shape[0])
+            for d in self.objs:
+                if "grid" in d:
+                    try:
+                        d["grid"].over_sampler.array_via_func_from(func=func, obj=None)
+                    except Exception:
+                        pass
+            roots = list(self.raw or []) + [o for d in self.objs for o in d.values()] + list(self.cfgs.values()) \
+                + list(self.arrays.values()) + [self.data_v, self.noise_v, self.psf_v]
+            for r in roots:
+                visit(r, 0)
+            # the caller's own data for the next world are fresh, equal arrays
+            rs = np.random.RandomState(int(self.case["seed"]) % (2 ** 31))
+            h, w = self.worlds[0]["arr"].shape
+            self.data_v = np.round(rs.uniform(1, 9, size=(h, w)) * 8) / 8
+            self.noise_v = np.round(rs.uniform(1, 3, size=(h, w)) * 8) / 8
+            self.psf_v = np.array([[1.0, 2.0, 1.0], [0.0, 4.0, 2.0], [1.0, 3.0, 2.0]]) / 16.0
+            return count[0]
+
         def drop_derived(self, wi):
             """after an in-place edit of the world's mask: objects that legitimately keep values computed from the
             old content (a Grid2D's coordinates, cached sub-grids, a masked dataset) are rebuilt from the edited mask"""
@@ -883,12 +1232,15 @@ class C12(PropertyCheck):
             k = tuple(c["kernel"])
 
             def grid(g):
-                return np.asarray(g.array if hasattr(g, "array") else g, dtype=float).reshape(-1, 2).tolist()
+                self.keep(g)
+                a_ = self.keep(np.asarray(g.array if hasattr(g, "array") else g, dtype=float))
+                return a_.reshape(-1, 2).tolist()
 
             def m():
                 return self.obj(wi, "mask")
 
             def bits(x):
+                self.keep(x)
                 return "".join("1" if b else "0" for b in np.asarray(x).ravel())
 
             def geomrec(z, values=None):
@@ -942,9 +1294,13 @@ class C12(PropertyCheck):
                 return "coordrec", geomrec(z.mask, np.asarray(z.native.array, dtype=float).ravel().tolist())
             if name == "resized":
                 return "coordrec", geomrec(m().resized_from(new_shape=tuple(c["resize_to"])))
-            if name == "radial_projected":
+            if name == "radial_projected":  # remove_projected_centre not given: the configuration value in force
                 return "coord", grid(self.obj(wi, "grid").grid_2d_radial_projected_from(
                     centre=(o[0] + 0.25, o[1] - 0.5), angle=float(c["angle"])))
+            if name in ("radial_keep", "radial_drop"):  # explicit argument: the control of a configuration history
+                return "coord", grid(self.obj(wi, "grid").grid_2d_radial_projected_from(
+                    centre=(o[0] + 0.25, o[1] - 0.5), angle=float(c["angle"]),
+                    remove_projected_centre=(name == "radial_drop")))
             if name == "overlay_mesh":
                 return "coord", grid(self.cfg("overlay").image_plane_mesh_grid_from(mask=m(), adapt_data=None))
             if name == "pixel_coordinates":
@@ -963,11 +1319,11 @@ class C12(PropertyCheck):
                 return "inv", np.asarray(self.cfg("overlay33").mesh_pixels_per_image_pixels_from(
                     mask=m(), mesh_grid=gm).native.array, dtype=float).ravel().tolist()
             if name == "edge_slim":
-                return "inv", [int(v) for v in m().derive_indexes.edge_slim]
+                return "inv", [int(v) for v in self.keep(m().derive_indexes.edge_slim)]
             if name == "border_slim":
-                return "inv", [int(v) for v in m().derive_indexes.border_slim]
+                return "inv", [int(v) for v in self.keep(m().derive_indexes.border_slim)]
             if name == "sub_border_slim":
-                return "inv", [int(v) for v in self.obj(wi, "relocator").sub_border_slim]
+                return "inv", [int(v) for v in self.keep(self.obj(wi, "relocator").sub_border_slim)]
             if name == "pixels_in_mask":
                 return "inv", int(m().pixels_in_mask)
             if name == "blurring_bits":
@@ -1098,19 +1454,56 @@ class C12(PropertyCheck):
             names.remove("overlay_mesh")
         return names
 
+    # configuration values the anchored code reads (`conf.instance[...]`), flipped by configuration histories
+    CONF_KEYS = {"rpc": ("general", "grid", "remove_projected_centre"),
+                 "nbo": ("general", "structures", "native_binned_only")}
+
+    @classmethod
+    def _conf_get(cls):
+        from autoconf import conf
+        out = {}
+        for k, (a, b, c) in cls.CONF_KEYS.items():
+            out[k] = conf.instance[a][b][c]
+        return out
+
+    @classmethod
+    def _conf_set(cls, state):
+        from autoconf import conf
+        for k, v in state.items():
+            a, b, c = cls.CONF_KEYS[k]
+            conf.instance[a][b][c] = v
+
     def _run_history(self, aa, case):
         if case.get("script") == "hilbert_shared":
             return self._run_hilbert_history(aa, case)
+        base_conf = self._conf_get()
+        try:
+            return self._run_history_body(aa, case, base_conf)
+        finally:
+            self._conf_set(base_conf)  # also when the history raises
+
+    def _run_history_body(self, aa, case, base_conf):
         import copy as _copy
+        import json as _json
         worlds = self._hist_worlds(case)
         S = self._Session(self, aa, case, worlds, persist=True)
         steps, log = [], []
+        cfg = {}  # configuration overrides in force
         for op in case["ops"]:
             kind = op[0]
             if kind == "obs":
                 wi, names = op[1], op[2]
                 ent = {n: S.put(wi, n) for n in names}
                 steps.append({"w": wi, "bits": self._bits(worlds[wi]["arr"]), "hist": ent})
+                if cfg:
+                    steps[-1]["cfg"] = dict(cfg)
+            elif kind == "conf":
+                cfg[op[1]] = op[2]
+                self._conf_set({op[1]: op[2]})
+            elif kind == "scribble":
+                log.append(["scribble", S.scribble()])
+            elif kind == "rebuild":
+                S.reset()
             elif kind == "decoy":
                 log.append(["decoy", op[1], S.decoy(op[1], op[2])])
             elif kind == "edit":
@@ -1136,17 +1529,18 @@ class C12(PropertyCheck):
         fresh = {}
         need = self._hist_all_names(case)
         for st in steps:
-            key = f"{st['w']}|{st['bits']}"
+            key = f"{st['w']}|{st['bits']}" + (("|" + _json.dumps(st["cfg"], sort_keys=True)) if st.get("cfg") else "")
             st["key"] = key
             if key in fresh:
                 continue
+            self._conf_set({**base_conf, **(st.get("cfg") or {})})  # the configuration in force at that step
             w0 = worlds[st["w"]]
             snap = {"arr": np.array([ch == "1" for ch in st["bits"]], dtype=bool).reshape(w0["arr"].shape),
                     "scales": w0["scales"], "origin": w0["origin"], "ctor": "ctor", "from": None}
             Fs = self._Session(self, aa, case, [snap], persist=False)
             names = list(need) + [n for n in st["hist"] if n not in need]
             for st2 in steps:  # every name any step observes in this state
-                if st2["w"] == st["w"] and st2["bits"] == st["bits"]:
+                if st2["w"] == st["w"] and st2["bits"] == st["bits"] and st2.get("cfg") == st.get("cfg"):
                     names += [n for n in st2["hist"] if n not in names]
             fresh[key] = {n: Fs.put(0, n) for n in names}
         return {"steps": steps, "fresh": fresh, "log": log}
@@ -1185,6 +1579,12 @@ class C12(PropertyCheck):
                 out.append(f"failing call {op[2]} on world {op[1]}")
             elif op[0] == "decoy":
                 out.append(f"all properties of world {op[1]} read")
+            elif op[0] == "conf":
+                out.append(f"conf {'.'.join(self.CONF_KEYS[op[1]])}={op[2]}")
+            elif op[0] == "scribble":
+                out.append("every returned / accepted array overwritten in place")
+            elif op[0] == "rebuild":
+                out.append("same worlds rebuilt from fresh equal inputs")
         return " -> ".join(out)
 
     def _history_oracle(self, case, obs):
@@ -1227,6 +1627,21 @@ class C12(PropertyCheck):
                     if got.shape != exp.shape or not self._close(got, exp):
                         return False, (f"{where}: {name} is not origin + (pixel position relative to the origin) for "
                                        f"origin {w['origin']}")
+            # configuration histories: the call without the argument follows the configuration value in force at call
+            # time, i.e. it equals the call with that value given explicitly (the control observed in the same step)
+            rp = st["hist"].get("radial_projected")
+            if rp is not None and ("radial_keep" in st["hist"] or "radial_drop" in st["hist"]):
+                drop = bool((st.get("cfg") or {}).get("rpc", False))
+                ctl = st["hist"].get("radial_drop" if drop else "radial_keep")
+                if ctl is not None and not ctl.get("err") and not rp.get("err") and \
+                        not self._deep_close(rp["value"], ctl["value"]):
+                    return False, (f"{where}: grid_2d_radial_projected_from without the argument does not follow the "
+                                   f"configuration value in force (remove_projected_centre={drop}): "
+                                   f"{len(rp['value'])} points, explicit argument gives {len(ctl['value'])}")
+                keep_, drop_ = st["hist"].get("radial_keep"), st["hist"].get("radial_drop")
+                if keep_ and drop_ and not keep_.get("err") and not drop_.get("err") and \
+                        not self._deep_close(keep_["value"][1:], drop_["value"]):
+                    return False, f"{where}: remove_projected_centre=True is not the line without its first point"
         # the translation relation between observations of the same content / scales at two origins
         st_ = obs["steps"]
         for i in range(len(st_)):
@@ -1235,6 +1650,8 @@ class C12(PropertyCheck):
                 wa, wb = worlds[a["w"]], worlds[b["w"]]
                 if a["bits"] != b["bits"] or wa["scales"] != wb["scales"]:
                     continue
+                if (a.get("cfg") or {}).get("rpc", False) != (b.get("cfg") or {}).get("rpc", False):
+                    continue  # the projected line has one point less under remove_projected_centre
                 d = np.array([wb["origin"][0] - wa["origin"][0], wb["origin"][1] - wa["origin"][1]])
                 common = [n for n in a["hist"] if n in b["hist"]]
                 ok, detail = self._relation(case, a["hist"], b["hist"], d, names=common)
@@ -1265,7 +1682,7 @@ class C12(PropertyCheck):
                 "zoom_shape": fr["zoom_mask_unmasked"]["value"]["shape"],
                 "zoomed_shape": fr["zoomed_around_mask"]["value"]["shape"],
                 "points": [[q(Fraction(a) + o[0]), q(Fraction(b) + o[1])] for a, b in case["rel_points"]]}))
-            if "radial_projected" in st["hist"]:
+            if any(n in st["hist"] for n in ("radial_projected", "radial_keep", "radial_drop")):
                 phi = math.radians(float(case["angle"]))
                 plan.append((k, "radial", {"op": "c12.radial", "shape": [h, wd], "scales": w["scales"],
                                            "origin": w["origin"],
@@ -1292,12 +1709,16 @@ class C12(PropertyCheck):
             mo = r["ok"]
             where = f"$.step{k + 1}[{self._history_desc(case, k)}]"
             if kind == "radial":
-                e = st["hist"]["radial_projected"]
-                if e.get("err"):
-                    return f"{where}.radial_projected: implementation raised {e['err']}"
-                d = cmp.diff(e["value"], mo, f"{where}.radial_projected")
-                if d:
-                    return d
+                in_force = bool((st.get("cfg") or {}).get("rpc", False))
+                for rn, dropped in (("radial_projected", in_force), ("radial_keep", False), ("radial_drop", True)):
+                    e = st["hist"].get(rn)
+                    if e is None:
+                        continue
+                    if e.get("err"):
+                        return f"{where}.{rn}: implementation raised {e['err']}"
+                    d = cmp.diff(e["value"], mo[1:] if dropped else mo, f"{where}.{rn}")
+                    if d:
+                        return d
                 continue
             if kind == "rect":
                 if Fraction(mo["tie_margin"]) < Fraction(1, 10**6):
@@ -1312,7 +1733,8 @@ class C12(PropertyCheck):
                 continue
             for name, e in st["hist"].items():
                 mname = self.HIST_MODEL.get(name, name)
-                if mname is None or mname not in self.MODEL_ENTRIES or mname == "radial_projected":
+                if mname is None or mname not in self.MODEL_ENTRIES or mname == "radial_projected" or \
+                        name in ("radial_keep", "radial_drop"):
                     continue
                 if name == "ds_blurring" and list(case["kernel"]) != [3, 3]:
                     continue
@@ -1573,15 +1995,725 @@ class C12(PropertyCheck):
             for delta, order in (("origin", 0), ("origin", 1), ("origin_rel20", 0)):
                 yield self._history_hilbert(rng, delta, order)
 
+    # ================================================================== round 5 / 6 streams (DESIGN §14)
+    # A  decades stream        tags dec_*   whole world / one ingredient scaled by 2^k, near twins at several decades
+    # B  ownership histories   tags own_*   observe -> scribble over everything returned / accepted -> rebuild -> observe
+    # C  container / layout    tags lay_*   equal-valued inputs in other layouts, dtypes, containers, constructors
+    # D  configuration         tags cfg_*   conf values flipped between calls on reused and fresh objects
+    # E  extremes              tags dec_extreme (2^+-150 .. 2^+-480), big_* (always-on frames beyond 2^16 pixels)
+    # F  options               tags opt_*   introspected options crossed pairwise, "set but falsy" values
+    # Every case carries "r5": True.  They are generated AFTER the earlier streams so that those keep their cases.
+
+    def _r5_streams(self, tier, rng):
+        import itertools
+        k = 0
+        for c in itertools.chain(self._decades(tier, rng), self._ownership(tier, rng), self._layouts(tier, rng),
+                                 self._conf_histories(tier, rng), self._options(tier, rng),
+                                 self._always_large(tier, rng)):
+            if c.get("group") == "geometry" and not c.get("large"):
+                # the derived-mask / subtracted-grid records (six more model requests per origin) on every second case
+                k += 1
+                c["records"] = bool(k % 2)
+            yield c
+
+    # ------------------------------------------------------------------ helpers
+    @staticmethod
+    def _is_exact(x):
+        x = Fraction(x)
+        try:
+            return Fraction(float(x)) == x
+        except OverflowError:
+            return False
+
+    def _exact_case(self, c):
+        """every coordinate-valued input of the case is an exact double (so that translations are exact and the
+        comparisons can be)"""
+        vals = list(c.get("scales", [])) + list(c.get("origin", [])) + list(c.get("shift", []))
+        vals += [Fraction(a) + Fraction(b) for a, b in zip(c.get("origin", []), c.get("shift", []))]
+        sh = [Fraction(x) for x in c.get("shift", ["0", "0"])]
+        for key in ("points", "mesh_points"):
+            for a, b in c.get(key, []):
+                vals += [a, b, Fraction(a) + sh[0], Fraction(b) + sh[1]]
+        for key in ("scale", "radius"):
+            if key in c:
+                vals.append(c[key])
+        return all(self._is_exact(v) for v in vals)
+
+    def _geom_base(self, rng, shape=None, scales=None, origin=None, shift=None, small=False):
+        """an ordinary geometry case (the recipe of the `geom_*` stream), points given relative to the origin first"""
+        h, w = shape or (rng.randint(5, 9), rng.randint(5, 9))
+        if small or min(h, w) < 3:
+            kh, kw = 1, 1
+        else:
+            kh, kw = rng.choice([1, 3]), rng.choice([1, 3])
+        m, kind = gen.random_mask(rng, h, w, margin=max(kh, kw) // 2)
+        sy, sx = scales or gen.scales_pair(rng)
+        if scales is None and rng.random() < 0.2:
+            sx = sy
+        if origin is not None:
+            oy, ox = origin
+        else:
+            oy, ox = gen.origin_pair(rng) if rng.random() < 0.75 else (Fraction(0), Fraction(0))
+        if shift is not None:
+            dy, dx = shift
+        else:
+            dy, dx = gen.dyadic(rng, -3, 3, 2), gen.dyadic(rng, -3, 3, 2)
+            if dy == 0 and dx == 0:
+                dx = Fraction(5, 4)
+        rel = self._rel_points(rng, h, w, [(sy, sx)])
+        rel_mesh = self._rel_points(rng, h, w, [(sy, sx)], n=6, inside=True)
+        off_mode = rng.choice(["origin", "origin_d", "explicit"])
+        off = (gen.dyadic(rng, -3, 3, 2) or Fraction(7, 4), gen.dyadic(rng, -3, 3, 2))
+        return {"group": "geometry", "r5": True, "kind": kind, "mask": mask_json(m),
+                "offset_mode": off_mode, "offset": [q(off[0]), q(off[1])],
+                "scales": [q(sy), q(sx)], "origin": [q(oy), q(ox)], "shift": [q(dy), q(dx)],
+                "sub": rng.randint(1, 3), "kernel": [kh, kw],
+                "points": [[q(Fraction(a) + oy), q(Fraction(b) + ox)] for a, b in rel],
+                "mesh_points": [[q(Fraction(a) + oy), q(Fraction(b) + ox)] for a, b in rel_mesh],
+                "resize_to": [max(1, h + rng.choice([-2, 0, 2, 3])), max(1, w + rng.choice([-2, 0, 2, 1]))],
+                "overlay": self._overlay_shape_without_ties(rng, m),
+                "angle": rng.choice([0, 30, 45, 90, 120])}
+
+    @staticmethod
+    def _scaled(c, U):
+        """the same world with every length multiplied by the power of two U"""
+        U = Fraction(U)
+        c = dict(c)
+        for k in ("scales", "origin", "shift", "offset"):
+            if k in c:
+                c[k] = [q(Fraction(x) * U) for x in c[k]]
+        for k in ("points", "mesh_points"):
+            if k in c:
+                c[k] = [[q(Fraction(a) * U), q(Fraction(b) * U)] for a, b in c[k]]
+        for k in ("scale", "radius"):
+            if k in c:
+                c[k] = q(Fraction(c[k]) * U)
+        if c.get("centre_rel"):
+            c["centre_rel"] = [q(Fraction(x) * U) for x in c["centre_rel"]]
+        c["unit"] = q(Fraction(c.get("unit", "1")) * U)
+        return c
+
+    @staticmethod
+    def _moved(c, delta):
+        """the same world with origin AND query points moved by delta (a far-away origin)"""
+        c = dict(c)
+        c["origin"] = [q(Fraction(c["origin"][0]) + delta[0]), q(Fraction(c["origin"][1]) + delta[1])]
+        for k in ("points", "mesh_points"):
+            if k in c:
+                c[k] = [[q(Fraction(a) + delta[0]), q(Fraction(b) + delta[1])] for a, b in c[k]]
+        return c
+
+    # ------------------------------------------------------------------ A / E: decades
+    DEC_EXTREME = [-480, -300, -150, 150, 300, 480]
+
+    def _decades(self, tier, rng):
+        quick = tier == "quick"
+        two = Fraction(2)
+
+        def world_k():
+            return rng.randint(-45, 45)
+
+        # (a) the whole world at another decade
+        for i in range(10 if quick else 90):
+            c = self._scaled(self._geom_base(rng), two ** world_k())
+            if abs(Fraction(c["unit"])) < Fraction(1, 2 ** 8):
+                c["overlay"] = None  # image_mesh.Overlay adds its documented absolute 1e-8 buffer to the extremes
+            c["tag"] = "dec_world"
+            yield c
+        # (E) out to 1e+-144: coordinates get squared in the radial projection (r^2 = y^2 + x^2)
+        ext = list(self.DEC_EXTREME)
+        rng.shuffle(ext)
+        for k in (ext[:4] if quick else ext * 3):
+            c = self._scaled(self._geom_base(rng), two ** k)
+            if k < 0:
+                c["overlay"] = None
+            c["tag"] = "dec_extreme"
+            yield c
+        # (b) an origin far from zero (1e5 .. 1e11 pixel scales away), the rest of the world of order one
+        n_far, tries = (6 if quick else 40), 0
+        while n_far > 0 and tries < 400:
+            tries += 1
+            base = self._geom_base(rng)
+            e1, e2 = rng.choice([17, 24, 30, 36]), rng.choice([0, 17, 24, 30, 36])
+            if rng.random() < 0.5:
+                e1, e2 = e2, e1
+            delta = (rng.choice([-1, 1]) * (two ** e1 if e1 else 0), rng.choice([-1, 1]) * (two ** e2 if e2 else 0))
+            if n_far % 2:
+                # the origin o stays near zero and the translation d is the far one: only one side of the relation
+                # sits far away, so a shortcut that fires there cannot cancel out
+                c = dict(base)
+                c["shift"] = [q(Fraction(c["shift"][0]) + delta[0]), q(Fraction(c["shift"][1]) + delta[1])]
+            else:
+                c = self._moved(base, delta)
+                if rng.random() < 0.3:  # ... and a far shift
+                    c["shift"] = [q(Fraction(c["shift"][0]) + rng.choice([-1, 1]) * two ** rng.choice([17, 24])), c["shift"][1]]
+            c = self._scaled(c, two ** rng.randint(-6, 6))
+            if not self._exact_case(c):
+                continue
+            n_far -= 1
+            c["pix_mag"] = max(abs(Fraction(c["origin"][k]) + t * Fraction(c["shift"][k])) / Fraction(c["scales"][k])
+                               for k in (0, 1) for t in (0, 1)).__float__()
+            c["tag"] = "dec_far_origin"
+            yield c
+        # (c) nearly equal pixel scales (relative difference 2^-20 .. 2^-40)
+        for i in range(4 if quick else 30):
+            for _ in range(50):
+                sy = rng.choice(gen.SCALES)
+                j = rng.choice([20, 26, 33, 40])
+                sx = sy * (1 + rng.choice([-1, 1]) * Fraction(1, 2 ** j))
+                if rng.random() < 0.5:
+                    sy, sx = sx, sy
+                c = self._scaled(self._geom_base(rng, scales=(sy, sx)), two ** world_k())
+                if self._exact_case(c):
+                    break
+            else:
+                continue
+            c["overlay"] = None if Fraction(c["unit"]) < Fraction(1, 2 ** 8) else c["overlay"]
+            c["tag"] = "dec_twin_scales"
+            yield c
+        # (d) an origin that is nearly zero / a translation that is nearly zero, relative to the pixel scale
+        for i in range(6 if quick else 40):
+            for _ in range(50):
+                j = rng.choice([20, 30, 40])
+                tiny = lambda: Fraction(rng.choice([-5, -3, -1, 1, 3, 5]), 2 ** j)
+                mode = ("origin", "shift", "both")[i % 3]
+                origin = (tiny(), tiny()) if mode in ("origin", "both") else None
+                shift = (tiny(), tiny() if rng.random() < 0.7 else Fraction(0)) if mode in ("shift", "both") else None
+                c = self._scaled(self._geom_base(rng, origin=origin, shift=shift), two ** world_k())
+                if self._exact_case(c):
+                    break
+            else:
+                continue
+            c["overlay"] = None if Fraction(c["unit"]) < Fraction(1, 2 ** 8) else c["overlay"]
+            c["tag"] = f"dec_twin_{mode}0"
+            yield c
+        # (e) radial projection: the centre nearly at / exactly at the origin
+        for i in range(4 if quick else 24):
+            for _ in range(50):
+                c = self._geom_base(rng)
+                j = rng.choice([20, 30, 40])
+                if i % 2 == 0:
+                    c["centre_rel"] = [q(Fraction(rng.choice([-3, -1, 1, 3]), 2 ** j)), q(Fraction(rng.choice([-3, -1, 1, 3]), 2 ** j))]
+                else:
+                    c["centre_rel"] = ["0", "0"]
+                c = self._scaled(c, two ** world_k())
+                cen = [Fraction(c["origin"][k]) + Fraction(c["centre_rel"][k]) for k in (0, 1)]
+                if self._exact_case(c) and all(self._is_exact(x) and self._is_exact(x + Fraction(c["shift"][k]))
+                                               for k, x in enumerate(cen)):
+                    break
+            else:
+                continue
+            c["overlay"] = None if Fraction(c["unit"]) < Fraction(1, 2 ** 8) else c["overlay"]
+            c["tag"] = "dec_twin_centre"
+            yield c
+        # datasets, mappers, Hilbert meshes at other decades
+        for i in range(4 if quick else 30):
+            h, w = rng.randint(7, 9), rng.randint(7, 9)
+            m, kind = gen.random_mask(rng, h, w, margin=rng.choice([0, 1, 2]))
+            sy, sx = gen.scales_pair(rng)
+            oy, ox = gen.origin_pair(rng)
+            dy, dx = gen.dyadic(rng, -3, 3, 2), gen.dyadic(rng, -3, 3, 2) or Fraction(-3, 4)
+            c = {"group": "dataset", "r5": True, "mask": mask_json(m), "scales": [q(sy), q(sx)],
+                 "origin": [q(oy), q(ox)], "shift": [q(dy), q(dx)], "seed": rng.randint(0, 10 ** 6)}
+            k = world_k() if i % 4 else rng.choice([-150, 150, 300])
+            c = self._scaled(c, two ** k)
+            if i % 3 == 2:
+                c = self._scaled(self._moved(c, (two ** 30 * Fraction(c["unit"]), -(two ** 24) * Fraction(c["unit"]))), 1)
+            c["tag"] = "dec_dataset"
+            yield c
+        for i in range(4 if quick else 24):
+            h, w = rng.randint(6, 8), rng.randint(6, 8)
+            m, kind = gen.random_mask(rng, h, w, margin=1)
+            sy, sx = gen.scales_pair(rng)
+            oy, ox = gen.origin_pair(rng)
+            dy, dx = gen.dyadic(rng, -3, 3, 2), gen.dyadic(rng, -3, 3, 2) or Fraction(1, 2)
+            c = {"group": "mapper", "r5": True, "mask": mask_json(m), "scales": [q(sy), q(sx)],
+                 "origin": [q(oy), q(ox)], "shift": [q(dy), q(dx)], "sub": rng.randint(1, 2),
+                 "mesh": [rng.randint(3, 4), rng.randint(3, 5)], "seed": rng.randint(0, 10 ** 6)}
+            # Mesh2DRectangular.overlay_grid adds its documented absolute buffer of 1e-8 to the extremes: it must stay
+            # above the rounding of the coordinates (beyond ~2^20 the outermost point lands ON the mesh edge)
+            c = self._scaled(c, two ** rng.randint(-20, 12))
+            c["tag"] = "dec_mapper"
+            yield c
+        for i in range(2 if quick else 10):
+            n = rng.choice([15, 17, 21])
+            s = rng.choice([Fraction(1, 4), Fraction(1, 2)])
+            oy, ox = gen.origin_pair(rng)
+            dy, dx = gen.dyadic(rng, -3, 3, 2), gen.dyadic(rng, -3, 3, 2) or Fraction(3, 4)
+            c = {"group": "hilbert", "r5": True, "n": n, "scale": q(s), "radius": q(s * (n // 2 - 2)),
+                 "origin": [q(oy), q(ox)], "shift": [q(dy), q(dx)], "pixels": rng.randint(8, 20),
+                 "masked_adapt": False, "settings_checks": bool(i % 2)}
+            c = self._scaled(c, two ** rng.randint(-30, 30))
+            c["tag"] = "dec_hilbert"
+            yield c
+
+    # ------------------------------------------------------------------ B: ownership histories
+    def _ownership(self, tier, rng):
+        for i in range(6 if tier == "quick" else 48):
+            use_ds, mapper = (i % 2 == 1), (i % 4 == 2)
+            c = self._history_two_worlds(rng, "origin", 0, "none", use_ds=use_ds, mapper=mapper, decoy=False)
+            names = list(c["ops"][0][2])
+            # three requests of world A, two of world B, every returned / accepted array overwritten in between;
+            # the worlds are rebuilt from fresh equal inputs each time
+            order = [0, 1, 0, 1, 0] if i % 3 else [0, 0, 0, 1, 1]
+            ops = []
+            for r, wi in enumerate(order):
+                nm = names[:]
+                rng.shuffle(nm)
+                ops.append(["obs", wi, nm])
+                if r < len(order) - 1:
+                    ops += [["scribble"], ["rebuild"]]
+            c.update({"tag": "own_ds" if use_ds else "own_mapper" if mapper else "own_geom", "script": "ownership",
+                      "ops": ops, "share": [], "keep_raw": True, "ro_arrays": False, "r5": True})
+            c["worlds"][1]["ctor"] = "ctor"
+            c["worlds"][1].pop("from", None)
+            yield c
+
+    # ------------------------------------------------------------------ C: containers / layouts
+    LAY_MASK = ["fortran", "tview", "strided", "reversed", "readonly", "fortran_readonly", "list", "intlist", "int",
+                "uint8", "int8", "float", "invert", "from_mask"]
+    # (no float32 origins / scales: under numpy 2 promotion rules a float32 scalar makes the coordinate arithmetic
+    # float32 — 1e-7 relative, dtype promotion of the library as it is, not a statement of the property)
+    LAY_ORIGIN = ["list", "nparray", "npfloat", "int"]
+    LAY_SCALES = ["list", "nparray", "npfloat", "scalar", "int"]
+    LAY_POINTS = ["list", "nparray", "npfloat"]
+    LAY_GRID = ["fortran", "list", "slim", "other_geometry"]  # (Grid2DIrregular / ndarray are not accepted by the API)
+    LAY_MESH = ["nparray", "lists"]
+    LAY_VALUES = ["fortran", "list", "int", "f32", "slim", "readonly", "store_native"]
+    LAY_SUB = ["array2d", "array2d_native"]
+    LAY_DATA = ["fortran", "list", "f32", "readonly", "tview", "slim"]
+
+    def _layouts(self, tier, rng):
+        quick = tier == "quick"
+        small_shapes = [(1, 1), (1, 4), (5, 1), (2, 2), (2, 5), (3, 3)]
+        n = 30 if quick else 220
+        for i in range(n):
+            mk = self.LAY_MASK[i % len(self.LAY_MASK)]
+            kw = {}
+            if i % 5 == 4:
+                kw["shape"] = small_shapes[(i // 5) % len(small_shapes)]
+                kw["small"] = True
+            if i % 3 == 0:  # integer world: int origins / scales are legal inputs
+                kw["scales"] = (Fraction(rng.choice([1, 2, 3])), Fraction(rng.choice([1, 2, 3])))
+                kw["origin"] = (Fraction(rng.randint(-4, 4)), Fraction(rng.randint(-4, 4)))
+            elif i % 3 == 1:  # the explicit origin is exactly (0, 0) at one of the two origins
+                if rng.random() < 0.5:
+                    kw["origin"] = (Fraction(0), Fraction(0))
+                else:
+                    d = (gen.dyadic(rng, -3, 3, 2) or Fraction(1, 2), gen.dyadic(rng, -3, 3, 2))
+                    kw["origin"], kw["shift"] = (-d[0], -d[1]), d
+            side = ("od", "o", "both")[i % 3] if i % 7 else "both"
+            if mk == "from_mask" and not kw.get("small"):
+                # a Mask2D built from a Mask2D that sits elsewhere, with the explicit origin EXACTLY (0.0, 0.0) on the
+                # side(s) where this constructor is used
+                kw.pop("scales", None)
+                if side == "od":
+                    d = (gen.dyadic(rng, -3, 3, 2) or Fraction(1, 2), gen.dyadic(rng, -3, 3, 2))
+                    kw["origin"], kw["shift"] = (-d[0], -d[1]), d
+                else:
+                    kw["origin"] = (Fraction(0), Fraction(0))
+                    kw.pop("shift", None)
+            c = self._geom_base(rng, **kw)
+            var = {"mask": mk}
+            if mk == "from_mask":
+                var["src_origin"] = [q(gen.dyadic(rng, -4, 4, 2) or Fraction(3)), q(gen.dyadic(rng, -4, 4, 2))]
+                if rng.random() < 0.5:
+                    var["src_scales"] = [q(rng.choice(gen.SCALES)), q(rng.choice(gen.SCALES))]
+            for key, vals in (("origin", self.LAY_ORIGIN), ("scales", self.LAY_SCALES), ("points", self.LAY_POINTS),
+                              ("grid", self.LAY_GRID), ("mesh_points", self.LAY_MESH), ("values", self.LAY_VALUES),
+                              ("sub", self.LAY_SUB)):
+                if rng.random() < 0.45:
+                    var[key] = rng.choice(vals)
+            c["variant"] = var
+            c["variant_at"] = side
+            if i % 6 == 5:
+                c["points"] = c["points"][:1]  # a one-element query grid
+            if kw.get("small"):
+                c["overlay"] = None
+            c["tag"] = f"lay_{mk}"
+            yield c
+        for i in range(6 if quick else 40):
+            h, w = rng.randint(7, 9), rng.randint(7, 9)
+            m, kind = gen.random_mask(rng, h, w, margin=rng.choice([0, 1, 2]))
+            sy, sx = gen.scales_pair(rng)
+            oy, ox = gen.origin_pair(rng)
+            dy, dx = gen.dyadic(rng, -3, 3, 2), gen.dyadic(rng, -3, 3, 2) or Fraction(-3, 4)
+            var = {"mask": rng.choice(self.LAY_MASK), "data": self.LAY_DATA[i % len(self.LAY_DATA)]}
+            if var["mask"] == "from_mask":
+                var["src_origin"] = [q(gen.dyadic(rng, -4, 4, 2) or Fraction(3)), q(gen.dyadic(rng, -4, 4, 2))]
+            if rng.random() < 0.5:
+                var["origin"] = rng.choice(self.LAY_ORIGIN)
+            yield {"tag": "lay_dataset", "group": "dataset", "r5": True, "mask": mask_json(m),
+                   "scales": [q(sy), q(sx)], "origin": [q(oy), q(ox)], "shift": [q(dy), q(dx)],
+                   "seed": rng.randint(0, 10 ** 6), "variant": var, "variant_at": ("od", "o", "both")[i % 3]}
+        for i in range(4 if quick else 24):
+            h, w = rng.randint(6, 8), rng.randint(6, 8)
+            m, kind = gen.random_mask(rng, h, w, margin=1)
+            sy, sx = gen.scales_pair(rng)
+            oy, ox = gen.origin_pair(rng)
+            dy, dx = gen.dyadic(rng, -3, 3, 2), gen.dyadic(rng, -3, 3, 2) or Fraction(1, 2)
+            var = {"mask": rng.choice(self.LAY_MASK), "origin": rng.choice(self.LAY_ORIGIN + ["tuple"])}
+            if var["mask"] == "from_mask":
+                var["src_origin"] = [q(gen.dyadic(rng, -4, 4, 2) or Fraction(3)), q(gen.dyadic(rng, -4, 4, 2))]
+            yield {"tag": "lay_mapper", "group": "mapper", "r5": True, "mask": mask_json(m),
+                   "scales": [q(sy), q(sx)], "origin": [q(oy), q(ox)], "shift": [q(dy), q(dx)],
+                   "sub": rng.randint(1, 2), "mesh": [rng.randint(3, 4), rng.randint(3, 5)],
+                   "seed": rng.randint(0, 10 ** 6), "variant": var, "variant_at": ("od", "o", "both")[i % 3]}
+
+    # ------------------------------------------------------------------ D: configuration histories
+    CFG_RADIAL = ["radial_projected", "radial_keep", "radial_drop"]
+    # entries that work while general.structures.native_binned_only is set (over-sampling and Array2D-valued index
+    # tables do not: the option exists for PyAutoCTI and its docstring advises against using it)
+    NBO_SAFE = ["from_mask", "all_false", "unmasked", "edge", "border", "blurring", "padded", "mask_centre", "extent",
+                "scaled_minmax", "zoom_mask_unmasked", "zoomed_around_mask", "resized", "overlay_mesh",
+                "pixel_coordinates", "grid_pixel_centres", "grid_pixels", "mesh_pixels_per_image_pixels", "edge_slim",
+                "border_slim", "pixels_in_mask", "blurring_bits", "resized_bits", "ds_uniform", "ds_pixelization",
+                "ds_blurring", "ds_origins", "simulator"]
+
+    def _conf_histories(self, tier, rng):
+        for i in range(6 if tier == "quick" else 48):
+            use_ds = i % 2 == 1
+            c = self._history_two_worlds(rng, "origin", 0, "all" if i % 4 < 2 else "none", use_ds=use_ds, mapper=False,
+                                         decoy=False)
+            base = [n for n in c["ops"][0][2] if n != "radial_projected"]
+
+            def names(k=10):
+                nm = rng.sample(base, min(k, len(base))) + list(self.CFG_RADIAL)
+                rng.shuffle(nm)
+                return nm
+            first = i % 2  # which world is read first
+            a, b = first, 1 - first
+            if i % 4 == 3:
+                # native_binned_only: every Array2D is stored natively while it is set (objects are built under the
+                # value in force: `rebuild` after each flip; only the entries that support the option are read)
+                safe = [n for n in base if n in self.NBO_SAFE]
+
+                def nbo_names(k=12):
+                    nm = rng.sample(safe, min(k, len(safe))) + list(self.CFG_RADIAL)
+                    rng.shuffle(nm)
+                    return nm
+                ops = [["obs", a, names()], ["conf", "nbo", True], ["rebuild"], ["obs", a, nbo_names()],
+                       ["obs", b, nbo_names()], ["conf", "nbo", False], ["rebuild"], ["obs", b, names()],
+                       ["obs", a, names()]]
+                tag = "cfg_native_binned_only"
+            else:
+                v0 = bool(i % 3 == 0)  # start from the non-pinned value in a third of the histories
+                ops = ([["conf", "rpc", True]] if v0 else []) + \
+                      [["obs", a, names()], ["conf", "rpc", not v0], ["obs", a, names()], ["obs", b, names()],
+                       ["conf", "rpc", v0], ["obs", b, names()], ["obs", a, names()], ["rebuild"],
+                       ["conf", "rpc", not v0], ["obs", a, names()]]
+                tag = "cfg_remove_projected_centre"
+            c.update({"tag": tag, "script": "config", "ops": ops, "r5": True})
+            c["worlds"][1]["ctor"] = "ctor"
+            c["worlds"][1].pop("from", None)
+            yield c
+
+    # ------------------------------------------------------------------ F: options crossed pairwise
+    @staticmethod
+    def _option_space(fn, table):
+        """{parameter: [non-default values]} for the parameters `fn` really has (inspect.signature): the values of
+        `table` where it names the parameter, the flipped default for any other boolean parameter"""
+        import inspect
+        out = {}
+        try:
+            params = inspect.signature(fn).parameters
+        except (TypeError, ValueError):
+            return out
+        for name, p in params.items():
+            if name in ("self", "cls", "args", "kwargs"):
+                continue
+            if name in table:
+                if table[name]:
+                    out[name] = list(table[name])
+            elif isinstance(p.default, bool):
+                out[name] = [not p.default]
+        return out
+
+    @staticmethod
+    def _pairwise(space):
+        """defaults, every single non-default value, every pair of non-default values of two different options"""
+        names = sorted(space)
+        out = [{}]
+        for n in names:
+            out += [{n: v} for v in space[n]]
+        for i, a in enumerate(names):
+            for b in names[i + 1:]:
+                out += [{a: va, b: vb} for va in space[a] for vb in space[b]]
+        return out
+
+    @staticmethod
+    def _covering_rows(space, rng, tries=24):
+        """option assignments {parameter: non-default value} (absent = default) such that every pair of values of two
+        different parameters — defaults included — occurs together in some row (greedy pairwise covering array: a
+        handful of rows cross everything with everything)"""
+        names = sorted(space)
+        vals = {n: [None] + list(space[n]) for n in names}  # index 0 = leave the default
+        need = {(a, i, b, j) for x, a in enumerate(names) for b in names[x + 1:]
+                for i in range(len(vals[a])) for j in range(len(vals[b]))}
+        rows = []
+        while need and len(rows) < 300:
+            best, best_cov = None, -1
+            pool = sorted(need)
+            for _ in range(tries):
+                row = {n: rng.randrange(len(vals[n])) for n in names}
+                a, i, b, j = pool[rng.randrange(len(pool))]
+                row[a], row[b] = i, j
+                cov = sum(1 for (x, ix, y, iy) in need if row[x] == ix and row[y] == iy)
+                if cov > best_cov:
+                    best, best_cov = row, cov
+            rows.append(best)
+            need = {(x, ix, y, iy) for (x, ix, y, iy) in need if not (best[x] == ix and best[y] == iy)}
+        return [{n: vals[n][i] for n, i in r.items() if i != 0} for r in rows]
+
+    def _options(self, tier, rng):
+        aa = load_autoarray()
+        from autoarray.dataset import preprocess
+        quick = tier == "quick"
+        # geometry entry points (option -> key of case["opts"])
+        space = {}
+        for fn, table, ren in (
+                (aa.Array2D.zoomed_around_mask, {"buffer": [0, 2]}, {}),
+                (aa.Mask2D.resized_from, {"new_shape": [], "pad_value": [1]}, {}),
+                (aa.Grid2D.grid_2d_radial_projected_from,
+                 {"centre": [], "angle": [], "shape_slim": [1, 5], "remove_projected_centre": [True, False]},
+                 {"remove_projected_centre": "rpc"}),
+                (aa.Grid2D.from_mask, {"mask": [], "over_sampling": ["sub"]}, {"over_sampling": "from_mask_os"})):
+            for k, v in self._option_space(fn, table).items():
+                space[ren.get(k, k)] = v
+        combos = self._pairwise(space)
+        rng.shuffle(combos)
+        rows = self._covering_rows(space, rng)  # every pair of option values in about ten cases
+        for opts in ((rows + combos)[:max(12, len(rows))] if quick else rows + self._covering_rows(space, rng) + combos):
+            c = self._geom_base(rng)
+            known = {k: v for k, v in opts.items() if k in ("buffer", "pad_value", "shape_slim", "rpc", "from_mask_os")}
+            if len(known) != len(opts):
+                continue  # an option this harness has no observation for (new parameter): nothing to cross
+            if known.get("from_mask_os") == "sub":
+                known["from_mask_os"] = c["sub"]
+            c["opts"] = known
+            c["tag"] = "opt_geom"
+            yield c
+        # datasets
+        img = self._pairwise(self._option_space(aa.Imaging.__init__, {
+            "data": [], "noise_map": [], "noise_covariance_matrix": [], "psf": ["none"],
+            "over_sampling": ["u2", "u2p3"], "use_normalized_psf": [False, None]}))
+        nsc = self._pairwise(self._option_space(aa.Imaging.apply_noise_scaling, {
+            "mask": [], "noise_value": [0.0, 5.0], "signal_to_noise_value": [2.0]}))
+        sim = self._pairwise(self._option_space(aa.SimulatorImaging.__init__, {
+            "exposure_time": [], "background_sky_level": [5.0], "psf": ["none"], "noise_if_add_noise_false": [0.0, 0.5],
+            "noise_seed": [0, 1]}))
+        s2n = self._pairwise(self._option_space(preprocess.noise_map_with_signal_to_noise_limit_from, {
+            "data": [], "noise_map": [], "signal_to_noise_limit": [], "noise_limit_mask": ["mask"]}))
+        for lst in (img, nsc, sim, s2n):
+            rng.shuffle(lst)
+        # covering rows first (all pairs of each callable's option values within the first dozen cases), the isolated
+        # pairs after them (thorough tier)
+        img = self._covering_rows(self._option_space(aa.Imaging.__init__, {
+            "data": [], "noise_map": [], "noise_covariance_matrix": [], "psf": ["none"],
+            "over_sampling": ["u2", "u2p3"], "use_normalized_psf": [False, None]}), rng) + img
+        nsc = self._covering_rows(self._option_space(aa.Imaging.apply_noise_scaling, {
+            "mask": [], "noise_value": [0.0, 5.0], "signal_to_noise_value": [2.0]}), rng) + nsc
+        sim = self._covering_rows(self._option_space(aa.SimulatorImaging.__init__, {
+            "exposure_time": [], "background_sky_level": [5.0], "psf": ["none"], "noise_if_add_noise_false": [0.0, 0.5],
+            "noise_seed": [0, 1]}), rng) + sim
+        n_ds = 16 if quick else max(len(img), len(nsc), len(sim))
+        for i in range(n_ds):
+            h, w = rng.randint(7, 9), rng.randint(7, 9)
+            m, kind = gen.random_mask(rng, h, w, margin=rng.choice([0, 1, 2]))
+            sy, sx = gen.scales_pair(rng)
+            oy, ox = gen.origin_pair(rng)
+            dy, dx = gen.dyadic(rng, -3, 3, 2), gen.dyadic(rng, -3, 3, 2) or Fraction(-3, 4)
+            yield {"tag": "opt_dataset", "group": "dsopts", "r5": True, "mask": mask_json(m),
+                   "scales": [q(sy), q(sx)], "origin": [q(oy), q(ox)], "shift": [q(dy), q(dx)],
+                   "seed": rng.randint(0, 10 ** 6),
+                   "ds_opts": {"imaging": img[i % len(img)], "noise_scaling": nsc[i % len(nsc)],
+                               "simulator": sim[i % len(sim)], "s2n": s2n[i % len(s2n)],
+                               "trim_kernel": rng.choice([[3, 3], [1, 3], [3, 5]])}}
+        # Hilbert image mesh x the optional mesh checks of SettingsInversion
+        hb = self._pairwise({"weight_floor": [0.0, 0.25], "weight_power": [0.0, 2.0],
+                             "min_per_pixel": [0, None], "min_number": [1, 0], "background": [None, 0.0]})
+        rng.shuffle(hb)
+        for i, o in enumerate(hb[:(2 if quick else 16)]):
+            n = rng.choice([15, 17])
+            s = rng.choice([Fraction(1, 4), Fraction(1, 2)])
+            oy, ox = gen.origin_pair(rng)
+            dy, dx = gen.dyadic(rng, -3, 3, 2), gen.dyadic(rng, -3, 3, 2) or Fraction(3, 4)
+            yield {"tag": "opt_hilbert", "group": "hilbert", "r5": True, "n": n, "scale": q(s),
+                   "radius": q(s * (n // 2 - 2)), "origin": [q(oy), q(ox)], "shift": [q(dy), q(dx)],
+                   "pixels": rng.randint(8, 20), "masked_adapt": False, "settings_checks": True, "hb_opts": o}
+
+    def _entries_dsopts(self, aa, case, origin, shift):
+        """dataset entry points under crossed options: Imaging(...) itself, apply_mask, apply_noise_scaling(...),
+        apply_over_sampling, trimmed_after_convolution_from, SimulatorImaging(...).via_image_from and the
+        signal-to-noise-limited noise map"""
+        from autoarray.dataset import preprocess
+        m = self._mask(aa, case, origin)
+        ps = m.pixel_scales
+        h, w = m.shape_native
+        rs = np.random.RandomState(case["seed"])
+        data_v = np.round(rs.uniform(1, 9, size=(h, w)) * 8) / 8
+        noise_v = np.round(rs.uniform(1, 3, size=(h, w)) * 8) / 8
+        o_ = case["ds_opts"]
+        out = {}
+
+        def grid(g):
+            return np.asarray(g.array if hasattr(g, "array") else g, dtype=float).reshape(-1, 2).tolist()
+
+        def bits(mm):
+            return "".join("1" if b else "0" for b in np.asarray(mm.array, dtype=bool).ravel())
+
+        def put(name, kind, fn):
+            try:
+                out[name] = {"kind": kind, "value": fn()}
+            except Exception as e:
+                out[name] = {"kind": kind, "value": None, "err": type(e).__name__, "msg": str(e)[:200]}
+
+        def kernel():
+            return aa.Kernel2D.no_mask(values=np.array([[1.0, 2.0, 1.0], [0.0, 4.0, 2.0], [1.0, 3.0, 2.0]]) / 16.0,
+                                       pixel_scales=ps)
+
+        def os_(kind):
+            if kind == "u2":
+                return aa.OverSamplingDataset(uniform=aa.OverSamplingUniform(sub_size=2))
+            return aa.OverSamplingDataset(uniform=aa.OverSamplingUniform(sub_size=2),
+                                          pixelization=aa.OverSamplingUniform(sub_size=3))
+
+        def ds():
+            kw = dict(o_.get("imaging") or {})
+            psf = None if kw.pop("psf", "kernel") == "none" else kernel()
+            if "over_sampling" in kw:
+                kw["over_sampling"] = os_(kw["over_sampling"])
+            data = aa.Array2D.no_mask(values=data_v.copy(), pixel_scales=ps, origin=origin)
+            noise = aa.Array2D.no_mask(values=noise_v.copy(), pixel_scales=ps, origin=origin)
+            return aa.Imaging(data=data, noise_map=noise, psf=psf, **kw)
+
+        def rec(d, random_values=False):
+            r = {"data_origin": list(map(float, d.data.mask.origin)),
+                 "noise_origin": list(map(float, d.noise_map.mask.origin)),
+                 "shape": list(d.data.shape_native), "grid": grid(d.grids.uniform),
+                 "bits": bits(d.data.mask), "noise_grid": grid(aa.Grid2D.from_mask(mask=d.noise_map.mask)),
+                 "noise_shape": list(d.noise_map.shape_native), "noise_bits": bits(d.noise_map.mask)}
+            r["data_random" if random_values else "data"] = np.asarray(d.data.native.array, dtype=float).ravel().tolist()
+            if not random_values:
+                r["noise"] = np.asarray(d.noise_map.native.array, dtype=float).ravel().tolist()
+            return r
+        put("imaging", "dsrec", lambda: rec(ds()))
+        put("apply_mask", "dsrec", lambda: rec(ds().apply_mask(mask=m)))
+        put("apply_noise_scaling", "dsrec", lambda: rec(ds().apply_noise_scaling(mask=m, **(o_.get("noise_scaling") or {}))))
+        put("apply_over_sampling", "dsrec", lambda: rec(ds().apply_mask(mask=m).apply_over_sampling(over_sampling=os_("u2p3"))))
+        put("trimmed", "dsrec", lambda: rec(ds().trimmed_after_convolution_from(kernel_shape=tuple(o_.get("trim_kernel", [3, 3])))))
+
+        def sim():
+            kw = dict(o_.get("simulator") or {})
+            psf = None if kw.pop("psf", "kernel") == "none" else kernel()
+            s = aa.SimulatorImaging(exposure_time=100.0, psf=psf, **kw)
+            image = aa.Array2D.no_mask(values=data_v.copy(), pixel_scales=ps, origin=origin)
+            rnd = kw.get("noise_seed", -1) == -1
+            return rec(s.via_image_from(image=image), random_values=rnd)
+        put("simulator", "dsrec", sim)
+
+        def s2n():
+            d = ds()
+            kw = {}
+            if (o_.get("s2n") or {}).get("noise_limit_mask") == "mask":
+                kw["noise_limit_mask"] = m
+            r = preprocess.noise_map_with_signal_to_noise_limit_from(
+                data=d.data, noise_map=d.noise_map, signal_to_noise_limit=2.0, **kw)
+            return {"origin": list(map(float, r.mask.origin)), "shape": list(r.shape_native),
+                    "grid": grid(aa.Grid2D.from_mask(mask=r.mask)), "bits": bits(r.mask),
+                    "values": np.asarray(r.native.array, dtype=float).ravel().tolist()}
+        put("s2n_limit_noise_map", "coordrec", s2n)
+        return out
+
+    # ------------------------------------------------------------------ E: always-on frames beyond 2^16 elements
+    def _always_large(self, tier, rng):
+        """one (quick) or a few (thorough) recipes of the large stream in EVERY run: a frame of more than 2^16 pixels,
+        (thorough) more than 2^15 sub-pixels, query points and unmasked pixels; judged by the vectorised relation"""
+        plan = [("frame", 65536)] if tier == "quick" else [("frame", 65536), ("sub_pixels", 32768), ("points", 65536),
+                                                          ("unmasked", 4096), ("ds_frame", 16384)]
+        for dim, c0 in plan:
+            t, how = self._large_sizes(c0)[1 if dim != "frame" else 0]
+            if dim == "frame":
+                t, how = c0 + rng.randint(2, 3000), "ge"
+            case, _cost = self._large_case(dim, c0, t, how, rng)
+            if case is None:
+                continue
+            if dim == "frame":
+                case["recipe"]["unmasked"] = 300  # Python-speed loops: keep the per-pixel work small
+            case["tag"] = f"big_{dim}"
+            case["r5"] = True
+            yield case
+
+    # ------------------------------------------------------------------ oracle of the round-5 geometry cases
+    def _r5_oracle(self, case, obs, d):
+        """closed forms, independent of the library (numpy), for what does not depend on implementation tables:
+        pixel centres, all-false grid, sub-pixel grids, extent, pixel count, mask content — at both origins, in the
+        band of the case's decade.  (`Equivalently, no result depends on where the origin is, only on positions
+        relative to it.`)"""
+        if case.get("group") != "geometry" or case.get("large"):
+            return True, ""
+        unit = self._unit(case)
+        arr = mask_from_json(case["mask"])
+        h, w = arr.shape
+        sc = (F(case["scales"][0]), F(case["scales"][1]))
+        o = (F(case["origin"][0]), F(case["origin"][1]))
+        sub = int(case["sub"])
+        for key, org in (("at_o", o), ("at_od", (o[0] + float(d[0]), o[1] + float(d[1])))):
+            at = obs[key]
+            exp = {"from_mask": self._np_centres(arr, sc, org), "unmasked": self._np_centres(arr, sc, org),
+                   "all_false": self._np_centres(np.zeros_like(arr), sc, org),
+                   "over_sampled": self._np_sub_grid(arr, sc, org, sub),
+                   "border_sub_grid": self._np_sub_grid(arr, sc, org, sub)}
+            for name, ex in exp.items():
+                e = at.get(name)
+                if e is None or e.get("err"):
+                    continue
+                got = np.asarray(e["value"], dtype=float).reshape(-1, 2)
+                if got.shape != ex.shape or not self._close(got, ex, unit=unit):
+                    return False, (f"{name} at origin {org} ({key}) is not origin + (pixel position relative to the "
+                                   f"origin) [unit {unit:g}, variant {case.get('variant')} at {case.get('variant_at')}]")
+            e = at.get("extent")
+            if e is not None and not e.get("err"):
+                ex = [org[1] - w / 2.0 * sc[1], org[1] + w / 2.0 * sc[1], org[0] - h / 2.0 * sc[0], org[0] + h / 2.0 * sc[0]]
+                if not self._close(e["value"], ex, unit=unit):
+                    return False, f"extent at origin {org} ({key}) is not origin -+ half the frame"
+            e = at.get("mask_bits")
+            if e is not None and not e.get("err") and e["value"] != case["mask"]["bits"]:
+                return False, (f"the mask built from the {case.get('variant', {}).get('mask')} input ({key}) does not have "
+                               f"the content of the input")
+            e = at.get("pixels_in_mask")
+            if e is not None and not e.get("err") and int(e["value"]) != int((~arr).sum()):
+                return False, f"pixels_in_mask ({key}) is not the number of unmasked pixels"
+            opts = case.get("opts") or {}
+            e, f = at.get("radial_projected"), at.get("radial_full")
+            if "rpc" in opts and e and f and not e.get("err") and not f.get("err"):
+                want = f["value"][1:] if opts["rpc"] else f["value"]
+                if len(e["value"]) != len(want) or not self._close(np.asarray(e["value"]).reshape(-1, 2),
+                                                                    np.asarray(want).reshape(-1, 2), unit=unit):
+                    return False, (f"grid_2d_radial_projected_from(remove_projected_centre={opts['rpc']}, options {opts}) "
+                                   f"({key}): {len(e['value'])} points, the same call keeping the centre has {len(f['value'])}")
+            if opts.get("shape_slim") and e and not e.get("err"):
+                n_want = int(opts["shape_slim"]) - (1 if opts.get("rpc") else 0)
+                if len(e["value"]) != n_want:
+                    return False, f"grid_2d_radial_projected_from(options {opts}) ({key}): {len(e['value'])} points, not {n_want}"
+        return True, ""
+
     # ------------------------------------------------------------------ oracle: the metamorphic relation
     @staticmethod
-    def _close(a, b, tol=TOL):
+    def _close(a, b, tol=TOL, unit=None):
+        """|a - b| <= tol * max(1, |a|, |b|) (the property's 1e-9 band).  With `unit` (decades stream: every length
+        of the world is a multiple of the power of two `unit`): |a - b| <= max(tol * unit, 2^-46 * max(|a|, |b|)),
+        i.e. 1e-9 of the world's own length scale, but never less than 64 ulps of the values compared — the
+        absolute floor `1` of the ordinary band would hide everything in a world of size 1e-13, and a band relative
+        to a far-away origin would hide whole pixels."""
         a = np.asarray(a, dtype=float)
         b = np.asarray(b, dtype=float)
         if a.shape != b.shape:
             return False
         if a.size == 0:
             return True
+        if unit is not None:
+            return bool(np.all(np.abs(a - b) <= np.maximum(tol * unit, 2.0 ** -46 * np.maximum(np.abs(a), np.abs(b)))))
         return bool(np.all(np.abs(a - b) <= tol * np.maximum(1.0, np.maximum(np.abs(a), np.abs(b)))))
 
     @staticmethod
@@ -1634,11 +2766,15 @@ class C12(PropertyCheck):
         if "err" in obs and "at_o" not in obs:
             return False, f"implementation raised {obs}"
         d = np.array([F(case["shift"][0]), F(case["shift"][1])])
-        return self._relation(case, obs["at_o"], obs["at_od"], d)
+        ok, detail = self._relation(case, obs["at_o"], obs["at_od"], d)
+        if ok and case.get("r5"):
+            ok, detail = self._r5_oracle(case, obs, d)
+        return ok, detail
 
     def _relation(self, case, at_o, at_od, d, names=None):
         """the metamorphic relation of the property between the entries evaluated at origin o (`at_o`) and at
         o+d (`at_od`): coordinate-valued entries translate by d, everything else is unchanged."""
+        unit = self._unit(case) if case.get("unit") is not None else None
         for name, e0 in at_o.items():
             if names is not None and name not in names:
                 continue
@@ -1650,8 +2786,9 @@ class C12(PropertyCheck):
             if e0.get("err") or e1.get("err"):
                 if e0.get("err") != e1.get("err"):
                     return False, f"{name}: raises {e0.get('err')} at origin o but {e1.get('err')} at o+d {e1.get('msg','')}"
-                if e0.get("err") not in ("MaskException",):
-                    # only the documented footprint-outside-frame error is an acceptable outcome
+                if e0.get("err") not in ("MaskException",) and case.get("group") != "dsopts" and not case.get("hb_opts"):
+                    # only the documented footprint-outside-frame error is an acceptable outcome (crossed options may
+                    # hit combinations the API does not support: then the same failure at both origins is no geometry)
                     return False, f"{name}: raises {e0.get('err')} at both origins {e0.get('msg','')}"
                 continue
             k, v0, v1 = e0["kind"], e0["value"], e1["value"]
@@ -1662,7 +2799,7 @@ class C12(PropertyCheck):
             if k == "coord":
                 a0 = np.asarray(v0, dtype=float).reshape(-1, 2)
                 a1 = np.asarray(v1, dtype=float).reshape(-1, 2)
-                if a0.shape != a1.shape or not self._close(a0 + d, a1):
+                if a0.shape != a1.shape or not self._close(a0 + d, a1, unit=unit):
                     where = ""
                     if a0.shape == a1.shape and a0.size:
                         i = int(np.argmax(np.abs(a1 - (a0 + d)).max(axis=1)))
@@ -1670,28 +2807,42 @@ class C12(PropertyCheck):
                                  f"{(a1[i] - a0[i]).tolist()} instead of d={np.asarray(d).tolist()})")
                     return False, f"{name}: coordinates at origin o+d are not those at o translated by d" + where
             elif k == "extent":
-                if not self._close(np.asarray(v0) + np.array([d[1], d[1], d[0], d[0]]), v1):
+                if not self._close(np.asarray(v0) + np.array([d[1], d[1], d[0], d[0]]), v1, unit=unit):
                     return False, f"{name}: extent not translated by d"
             elif k == "inv":
-                if not self._deep_close(v0, v1):
+                if name == "grid_pixels" and case.get("pix_mag"):
+                    # continuous pixel coordinates are computed as -p/s + (centre + o/s): their rounding error is a few
+                    # ulps of |o| / s, which for an origin 1e10 pixels away is not 1e-9 of a pixel
+                    if not bool(np.all(np.abs(np.asarray(v0, dtype=float) - np.asarray(v1, dtype=float))
+                                       <= max(1e-9, 2.0 ** -44 * float(case["pix_mag"])))):
+                        return False, f"{name}: continuous pixel coordinates change with the origin"
+                elif not self._deep_close(v0, v1, unit=unit):
                     return False, f"{name}: index/weight/matrix-valued result changes with the origin"
             elif k in ("coordrec", "dsrec"):
+                if set(v0) != set(v1):
+                    return False, f"{name}: record fields {sorted(v0)} at o but {sorted(v1)} at o+d"
                 for key in v0:
-                    if key.endswith("origin") or key == "grid":
+                    if key.endswith("origin") or key.endswith("grid"):
                         a0 = np.asarray(v0[key], dtype=float).reshape(-1, 2)
                         a1 = np.asarray(v1[key], dtype=float).reshape(-1, 2)
-                        if a0.shape != a1.shape or not self._close(a0 + d, a1):
+                        if a0.shape != a1.shape or not self._close(a0 + d, a1, unit=unit):
                             return False, f"{name}.{key}: not translated by d"
+                    elif key == "extent":
+                        if not self._close(np.asarray(v0[key]) + np.array([d[1], d[1], d[0], d[0]]), v1[key], unit=unit):
+                            return False, f"{name}.extent: not translated by d"
+                    elif key == "data_random":
+                        continue  # values drawn with a fresh random seed (noise_seed=-1): only the geometry is compared
                     else:
                         if not self._deep_close(v0[key], v1[key]):
                             return False, f"{name}.{key}: changes with the origin"
         return True, ""
 
-    def _deep_close(self, a, b):
+    def _deep_close(self, a, b, unit=None):
         if isinstance(a, dict):
             return isinstance(b, dict) and set(a) == set(b) and all(
                 k in ("src", "mesh_origin", "mesh_scales_q")  # coordinate-valued helpers, fed to the model, not invariants
-                or (k.endswith("_rel") and self._close(a[k], b[k])) or self._deep_close(a[k], b[k]) for k in a)
+                or (k.endswith("_rel") and self._close(a[k], b[k], unit=unit)) or
+                (not k.endswith("_rel") and self._deep_close(a[k], b[k])) for k in a)
         if isinstance(a, str) or isinstance(b, str):
             return a == b
         try:
@@ -1726,6 +2877,8 @@ class C12(PropertyCheck):
                 reqs.append({"op": "c12.rect_mapper", "grid": e["value"]["src"], "mesh": case["mesh"],
                              "buffer": q(1e-8)})
             return reqs
+        if case["group"] in ("dataset", "dsopts"):
+            return self._ds_requests(case, impl_obs) if case.get("r5") else []
         if case["group"] != "geometry":
             return []
         reqs = []
@@ -1736,6 +2889,8 @@ class C12(PropertyCheck):
             need = ("edge_slim", "border_slim", "blurring_bits", "resized_bits", "zoom_mask_unmasked",
                     "zoomed_around_mask")
             if any(e[n].get("err") for n in need):
+                if case.get("r5"):
+                    return []  # round-5 streams: judged by the oracle (relation + closed forms) when a table is missing
                 raise Skip("an implementation-side table is unavailable (footprint outside frame)")
             reqs.append({
                 "op": "c12.entries", "mask": case["mask"], "scales": case["scales"],
@@ -1749,43 +2904,164 @@ class C12(PropertyCheck):
             })
         import math
         phi = math.radians(float(case["angle"]))
+        u = Fraction(case.get("unit", "1"))
+        cr = case.get("centre_rel") or [q(u / 4), q(-u / 2)]
         for org in (o, [o[0] + d[0], o[1] + d[1]]):
-            reqs.append({"op": "c12.radial", "shape": [case["mask"]["h"], case["mask"]["w"]],
-                         "scales": case["scales"], "origin": [q(org[0]), q(org[1])],
-                         "centre": [q(org[0] + Fraction(1, 4)), q(org[1] - Fraction(1, 2))],
-                         "cos_sin": [q(math.cos(phi)), q(math.sin(phi))]})
+            r = {"op": "c12.radial", "shape": [case["mask"]["h"], case["mask"]["w"]],
+                 "scales": case["scales"], "origin": [q(org[0]), q(org[1])],
+                 "centre": [q(org[0] + Fraction(cr[0])), q(org[1] + Fraction(cr[1]))],
+                 "cos_sin": [q(math.cos(phi)), q(math.sin(phi))]}
+            if (case.get("opts") or {}).get("shape_slim"):
+                r["shape_slim"] = int(case["opts"]["shape_slim"])
+            reqs.append(r)
+        if case.get("r5"):
+            reqs += self._ds_requests(case, impl_obs)  # derived-mask records (after the four requests above)
         return reqs
+
+    # -- model judgement of dataset records (round-5 streams): the grid of the returned data / noise map is the
+    # pixel-centre grid of the returned mask in the geometry (returned shape, world scales, WORLD ORIGIN): every
+    # dataset operation keeps the origin (`datasetKeepGeom` / `datasetTrimmedGeom`, theorem dataset_records_commute)
+    def _ds_plan(self, case, impl_obs):
+        plan = []
+        if "at_o" not in impl_obs:
+            return plan
+        o = [Fraction(case["origin"][0]), Fraction(case["origin"][1])]
+        d = [Fraction(case["shift"][0]), Fraction(case["shift"][1])]
+        for key, org in (("at_o", o), ("at_od", [o[0] + d[0], o[1] + d[1]])):
+            for name, e in impl_obs[key].items():
+                v = e.get("value")
+                if e.get("err") or not isinstance(v, dict) or "bits" not in v:
+                    continue
+                h, w = v["shape"]
+                if h * w != len(v["bits"]) or h * w == 0:
+                    continue
+                eo = org
+                if "offset_q" in v:  # Grid2D.subtracted_from: the mask moves by -offset
+                    eo = [org[0] - Fraction(v["offset_q"][0]), org[1] - Fraction(v["offset_q"][1])]
+                plan.append((key, name, [q(eo[0]), q(eo[1])], {
+                    "op": "c12.entries", "mask": {"h": h, "w": w, "bits": v["bits"]}, "scales": case["scales"],
+                    "origin": [q(eo[0]), q(eo[1])], "kernel": [1, 1], "sub": 1, "edge_slim": [], "border_slim": [],
+                    "blurring_bits": v["bits"], "resized_shape": [h, w], "resized_bits": v["bits"],
+                    "zoom_shape": [1, 1], "zoomed_shape": [1, 1], "points": []}))
+        return plan
+
+    def _ds_requests(self, case, impl_obs):
+        return [r for _, _, _, r in self._ds_plan(case, impl_obs)]
+
+    def _ds_compare(self, case, impl_obs, responses, cmp):
+        plan = self._ds_plan(case, impl_obs)
+        if len(plan) != len(responses):
+            return f"dataset records: {len(responses)} model responses for {len(plan)} requests"
+        u = Fraction(case.get("unit", "1"))
+        c2 = Cmp(rtol=Fraction(1, 2 ** 46), atol=Fraction(1, 10 ** 9))
+        try:
+            for (key, name, org, _), r in zip(plan, responses):
+                if "err" in r:
+                    return f"{key}.{name}: model error {r['err']}"
+                v = impl_obs[key][name]["value"]
+                okeys = [k for k in v if k.endswith("origin")]
+                for k in okeys:
+                    dd = c2.diff(self._unscale(v[k], u), self._unscale(org, u), f"$.{key}.{name}.{k}")
+                    if dd:
+                        return dd
+                dd = c2.diff(self._unscale(v["grid"], u), self._unscale(r["ok"]["from_mask"], u), f"$.{key}.{name}.grid")
+                if dd:
+                    return dd
+                if "extent" in v:
+                    dd = c2.diff(self._unscale(v["extent"], u), self._unscale(r["ok"]["extent"], u), f"$.{key}.{name}.extent")
+                    if dd:
+                        return dd
+                if "values_grid" in v:
+                    dd = c2.diff(self._unscale(v["values_grid"], u), self._unscale(r["ok"]["from_mask"], u),
+                                 f"$.{key}.{name}.values_grid")
+                    if dd:
+                        return dd
+                if "noise_grid" in v and v.get("noise_shape") == v["shape"] and v.get("noise_bits") == v["bits"]:
+                    dd = c2.diff(self._unscale(v["noise_grid"], u), self._unscale(r["ok"]["from_mask"], u),
+                                 f"$.{key}.{name}.noise_grid")
+                    if dd:
+                        return dd
+        finally:
+            cmp.exact += c2.exact
+            cmp.tolerant += c2.tolerant
+        return None
+
+    @classmethod
+    def _unscale(cls, v, u):
+        """every number of a coordinate-valued (nested) value divided by the power of two `u`, exactly"""
+        if isinstance(v, (list, tuple)):
+            return [cls._unscale(x, u) for x in v]
+        if isinstance(v, float):
+            if v != v or v in (float("inf"), float("-inf")):
+                return v
+            return Fraction(v) / u
+        if isinstance(v, (int, Fraction)) and not isinstance(v, bool):
+            return Fraction(v) / u
+        if isinstance(v, str):
+            try:
+                return Fraction(v) / u
+            except (ValueError, ZeroDivisionError):
+                return v
+        return v
+
+    COORD_ENTRIES = ("from_mask", "all_false", "unmasked", "edge", "border", "blurring", "padded", "over_sampled",
+                     "border_sub_grid", "mask_centre", "extent", "scaled_minmax", "radial_projected")
+    REC_ENTRIES = ("zoom_mask_unmasked", "zoomed_around_mask", "resized")
 
     def model_obs(self, case, responses):
         if case.get("group") == "history":
             return {"steps": responses}
+        if case.get("group") in ("dataset", "dsopts"):
+            return {"records": responses}
         for r in responses:
             if "err" in r:
                 return {"err": r["err"]}
         out = {"at_o": responses[0]["ok"], "at_od": responses[1]["ok"]}
-        if len(responses) == 4:
+        if len(responses) >= 4:
             out["at_o"]["radial_projected"] = responses[2]["ok"]
             out["at_od"]["radial_projected"] = responses[3]["ok"]
+            out["records"] = responses[4:]
         return out
 
     def compare(self, case, impl_obs, model_obs, cmp):
         if case.get("group") == "history":
             return self._history_compare(case, impl_obs, model_obs, cmp)
+        if case.get("group") in ("dataset", "dsopts"):
+            return self._ds_compare(case, impl_obs, model_obs["records"], cmp)
         if "err" in model_obs:
             return f"model error {model_obs}"
+        if case["group"] == "geometry" and case.get("r5"):
+            recs = model_obs.pop("records", [])
+            if case.get("unit") is not None or case.get("opts"):
+                d = self._compare_r5_geometry(case, impl_obs, model_obs, cmp)
+            else:
+                d = self._compare_geometry(case, impl_obs, model_obs, cmp)
+            return d or self._ds_compare(case, impl_obs, recs, cmp)
         if case["group"] == "mapper":
-            for key in ("at_o", "at_od"):
-                mo = model_obs[key]
-                if Fraction(mo["tie_margin"]) < Fraction(1, 10**6):
-                    raise Skip("a source-plane point lies within the tie band of a mesh cell boundary")
-                v = impl_obs[key]["mapper_rectangular"]["value"]
-                d = cmp.diff({"pix": [int(x[0]) if isinstance(x, list) else int(x) for x in v["pix_indexes"]],
-                              "origin": v["mesh_origin"], "scales": v["mesh_scales_q"]},
-                             {"pix": mo["pix_indexes"], "origin": mo["origin"], "scales": mo["scales"]},
-                             f"$.{key}.mapper_rectangular")
-                if d:
-                    return d
+            unit = Fraction(case["unit"]) if case.get("unit") is not None else None
+            cc = Cmp(rtol=Fraction(1, 2 ** 46), atol=Fraction(1, 10 ** 9)) if unit is not None else cmp
+            us = (lambda x: self._unscale(x, unit)) if unit is not None else (lambda x: x)
+            try:
+                for key in ("at_o", "at_od"):
+                    mo = model_obs[key]
+                    if Fraction(mo["tie_margin"]) < Fraction(1, 10**6):
+                        raise Skip("a source-plane point lies within the tie band of a mesh cell boundary")
+                    v = impl_obs[key]["mapper_rectangular"]["value"]
+                    d = cc.diff({"pix": [int(x[0]) if isinstance(x, list) else int(x) for x in v["pix_indexes"]],
+                                 "origin": us(v["mesh_origin"]), "scales": us(v["mesh_scales_q"])},
+                                {"pix": mo["pix_indexes"], "origin": us(mo["origin"]), "scales": us(mo["scales"])},
+                                f"$.{key}.mapper_rectangular")
+                    if d:
+                        return d
+            finally:
+                if cc is not cmp:
+                    cmp.exact += cc.exact
+                    cmp.tolerant += cc.tolerant
             return None
+        model_obs.pop("records", None)
+        return self._compare_geometry(case, impl_obs, model_obs, cmp)
+
+    def _compare_geometry(self, case, impl_obs, model_obs, cmp):
         for key in ("at_o", "at_od"):
             for name in self.MODEL_ENTRIES:
                 e = impl_obs[key][name]
@@ -1802,6 +3078,48 @@ class C12(PropertyCheck):
                     return d
         return None
 
+    def _compare_r5_geometry(self, case, impl_obs, model_obs, cmp):
+        """geometry entries of a decades / options case against the model: lengths are compared in units of the
+        case's decade (division by a power of two: exact) with the band max(1e-9, 2^-46 |value / unit|)"""
+        u = Fraction(case.get("unit", "1"))
+        opts = case.get("opts") or {}
+        c2 = Cmp(rtol=Fraction(1, 2 ** 46), atol=Fraction(1, 10 ** 9))
+        try:
+            for key in ("at_o", "at_od"):
+                names = list(self.MODEL_ENTRIES) + (["over_sampled_via_grid"] if opts.get("from_mask_os") else [])
+                for name in names:
+                    e = impl_obs[key][name]
+                    if e.get("err"):
+                        return f"{key}.{name}: implementation raised {e['err']}"
+                    iv = e["value"]
+                    mv = model_obs[key]["over_sampled" if name == "over_sampled_via_grid" else name]
+                    if name == "zoomed_around_mask":
+                        iv = {k: iv[k] for k in ("origin", "shape", "grid")}
+                    if name == "mask_centre":
+                        iv = iv[0]
+                    if name == "radial_projected" and opts.get("rpc") and isinstance(mv, list):
+                        mv = mv[1:]  # remove_projected_centre=True: the line without its first point (the centre)
+                    if name == "grid_pixels" and case.get("pix_mag"):
+                        c3 = Cmp(rtol=0, atol=Fraction(max(1e-9, 2.0 ** -44 * float(case["pix_mag"]))))
+                        d = c3.diff(iv, mv, f"$.{key}.{name}")
+                        c2.exact += c3.exact
+                        c2.tolerant += c3.tolerant
+                        if d:
+                            return d
+                        continue
+                    if name in self.COORD_ENTRIES or name == "over_sampled_via_grid":
+                        iv, mv = self._unscale(iv, u), self._unscale(mv, u)
+                    elif name in self.REC_ENTRIES and isinstance(iv, dict) and isinstance(mv, dict):
+                        iv = {k: (self._unscale(x, u) if k in ("origin", "grid") else x) for k, x in iv.items()}
+                        mv = {k: (self._unscale(x, u) if k in ("origin", "grid") else x) for k, x in mv.items()}
+                    d = c2.diff(iv, mv, f"$.{key}.{name}")
+                    if d:
+                        return d
+        finally:
+            cmp.exact += c2.exact
+            cmp.tolerant += c2.tolerant
+        return None
+
     def theorems_for(self, case):
         return {"geometry": ["C12.grid_from_mask_covariant", "C12.gathered_grid_covariant",
                              "C12.padded_grid_covariant", "C12.over_sampled_grid_covariant",
@@ -1812,6 +3130,7 @@ class C12(PropertyCheck):
                 "mapper": ["C12.overlay_mesh_covariant", "C12.rectangular_mapper_table_invariant",
                            "C12.delaunay_mapper_tables_invariant"],
                 "dataset": ["C12.dataset_records_commute"],
+                "dsopts": ["C12.dataset_records_commute"],
                 "history": ["C12.grid_from_mask_covariant", "C12.over_sampled_grid_covariant",
                             "C12.gathered_grid_covariant", "C12.padded_grid_covariant", "C12.mask_centre_covariant",
                             "C12.zoom_mask_covariant", "C12.resized_grid_covariant",
@@ -1828,14 +3147,38 @@ class C12(PropertyCheck):
     def shrink(self, case):
         """histories only: fewer operations, fewer observed entries, fewer shared objects (large recipes and the
         ordinary cases are reported as generated)"""
-        if case.get("group") != "history" or case.get("script") == "hilbert_shared":
+        if case.get("group") != "history":
+            # round-5 cases: drop crossed options / input variants one at a time
+            for key in ("opts", "variant", "hb_opts"):
+                for k in list(case.get(key) or {}):
+                    if key == "variant" and k in ("src_origin", "src_scales"):
+                        continue
+                    c = dict(case)
+                    c[key] = {a: b for a, b in case[key].items() if a != k}
+                    yield c
+            for sect in list((case.get("ds_opts") or {})):
+                if isinstance(case["ds_opts"][sect], dict):
+                    for k in list(case["ds_opts"][sect]):
+                        c = dict(case)
+                        c["ds_opts"] = dict(case["ds_opts"])
+                        c["ds_opts"][sect] = {a: b for a, b in case["ds_opts"][sect].items() if a != k}
+                        yield c
+            return
+        if case.get("script") == "hilbert_shared":
             return
         ops = case["ops"]
         n_obs = sum(1 for o in ops if o[0] == "obs")
         for i, op in enumerate(ops):
-            if op[0] in ("decoy", "fault", "clone") or (op[0] == "obs" and n_obs > 1):
+            if op[0] in ("decoy", "fault", "clone", "conf") or (op[0] == "obs" and n_obs > 1):
                 c = dict(case)
                 c["ops"] = ops[:i] + ops[i + 1:]
+                yield c
+            elif op[0] == "scribble":
+                # with the rebuild that follows it (a rebuild is never removed on its own: reading objects that were
+                # scribbled over is a different, uninteresting failure)
+                j = i + 2 if i + 1 < len(ops) and ops[i + 1][0] == "rebuild" else i + 1
+                c = dict(case)
+                c["ops"] = ops[:i] + ops[j:]
                 yield c
         for i, op in enumerate(ops):
             if op[0] == "obs" and len(op[2]) > 1:
